@@ -218,9 +218,56 @@ theorem setEqualsWith_spec (s dst : SessionVariables) :
         cases hd : AMap.get dst.variables k <;> cases h1 : AMap.get s.variables k <;>
           cases h2 : AMap.get s.unused k <;> simp
 
+/-! ### expressions: what does not read the session has one value -/
+
+theorem evalExpr_sessionFree (g v v' : AMap String) (e : Expr) (h : e.sessionFree = true) :
+    evalExpr g v e = evalExpr g v' e := by
+  induction e with
+  | int i => rfl
+  | str s => rfl
+  | null => rfl
+  | uvar n => simp [Expr.sessionFree] at h
+  | svar ex n => simp [Expr.sessionFree] at h
+  | gvar n => rfl
+  | cat a b iha ihb =>
+    simp only [Expr.sessionFree, Bool.and_eq_true] at h
+    simp only [evalExpr, iha h.1, ihb h.2]
+  | add a b iha ihb =>
+    simp only [Expr.sessionFree, Bool.and_eq_true] at h
+    simp only [evalExpr, iha h.1, ihb h.2]
+
+/-- A value text that mentions no user variable and no session system variable
+    evaluates to the same value in every session (of one server). -/
+theorem evalText_sessionFree (g v v' : AMap String) (t : String) (h : sessionFreeB t = true) :
+    evalText g v t = evalText g v' t := by
+  unfold sessionFreeB at h
+  unfold evalText
+  cases hp : parseText t with
+  | none => rfl
+  | some e =>
+    rw [hp] at h
+    simp only at h ⊢
+    rw [evalExpr_sessionFree g v v' e h]
+
 /-! ### the backend applying a SET statement -/
 
 @[simp] theorem wireKey_false (k : String) : wireKey false k = k := by simp [wireKey]
+
+theorem sessionFreeB_defaultText (k : String) : sessionFreeB (defaultText k) = true := by
+  unfold defaultText
+  by_cases h : isUserVarName k = true
+  · simp only [h, ↓reduceIte]; decide
+  · simp only [h]; decide
+
+theorem evalText_defaultText (g v : AMap String) (k : String) : evalText g v (defaultText k) = defaultText k := by
+  unfold defaultText
+  by_cases h : isUserVarName k = true
+  · simp only [h, ↓reduceIte]
+    have : parseText "NULL" = some .null := by decide
+    simp [evalText, this, Expr.isLit]
+  · simp only [h]
+    have : parseText "DEFAULT" = none := by decide
+    simp [evalText, this]
 
 theorem isReset_defaultText (k : String) : isReset k (defaultText k) = true := by
   unfold isReset defaultText
@@ -231,43 +278,67 @@ theorem isReset_defaultText (k : String) : isReset k (defaultText k) = true := b
 
 theorem applyItem_assign_get (b : Backend) (k' txt k : String) :
     AMap.get (b.applyItem (.assign k' txt)).vars k =
-      if k = k' then (if isReset k' txt then none else some txt) else AMap.get b.vars k := by
+      if k = k' then (if isReset k' (evalText b.globals b.vars txt) then none else some (evalText b.globals b.vars txt))
+      else AMap.get b.vars k := by
   unfold Backend.applyItem
-  by_cases h : isReset k' txt = true
+  by_cases h : isReset k' (evalText b.globals b.vars txt) = true
   · simp only [h, ↓reduceIte, get_del]
   · simp [h, get_put]
 
 @[simp] theorem applyItem_assign_charset (b : Backend) (k' txt : String) :
-    (b.applyItem (.assign k' txt)).charset = b.charset ∧ (b.applyItem (.assign k' txt)).collation = b.collation := by
+    (b.applyItem (.assign k' txt)).charset = b.charset ∧ (b.applyItem (.assign k' txt)).collation = b.collation ∧
+    (b.applyItem (.assign k' txt)).globals = b.globals := by
   unfold Backend.applyItem
-  by_cases h : isReset k' txt = true <;> simp [h]
+  by_cases h : isReset k' (evalText b.globals b.vars txt) = true <;> simp [h]
+
+/-- The value a variable ends up with when it is assigned `txt` and `txt` does
+    not read the session. -/
+def assigned (g : AMap String) (k txt : String) : Option String :=
+  if isReset k (evalText g [] txt) then none else some (evalText g [] txt)
 
 /-- A backend applies a list of assignments left to right: for each name the
-    last assignment decides, names not assigned keep their value. -/
+    last assignment decides — its value, when it does not read the session, is
+    the same whatever was assigned before it —, names not assigned keep their
+    value. -/
 theorem apply_assigns (l : AMap String) (b : Backend) :
     ((l.map (fun p => Item.assign p.1 p.2)).foldl Backend.applyItem b).charset = b.charset ∧
     ((l.map (fun p => Item.assign p.1 p.2)).foldl Backend.applyItem b).collation = b.collation ∧
-    ∀ k, AMap.get ((l.map (fun p => Item.assign p.1 p.2)).foldl Backend.applyItem b).vars k =
-      match AMap.get l k with
-      | some txt => if isReset k txt then none else some txt
-      | none => AMap.get b.vars k := by
+    ((l.map (fun p => Item.assign p.1 p.2)).foldl Backend.applyItem b).globals = b.globals ∧
+    ∀ k, match AMap.get l k with
+      | some txt => sessionFreeB txt = true →
+          AMap.get ((l.map (fun p => Item.assign p.1 p.2)).foldl Backend.applyItem b).vars k = assigned b.globals k txt
+      | none => AMap.get ((l.map (fun p => Item.assign p.1 p.2)).foldl Backend.applyItem b).vars k = AMap.get b.vars k := by
   induction l generalizing b with
   | nil => simp
   | cons p l ih =>
     obtain ⟨k', txt⟩ := p
     simp only [List.map_cons, List.foldl_cons]
-    obtain ⟨h1, h2, h3⟩ := ih (b.applyItem (.assign k' txt))
+    obtain ⟨h1, h2, hg, h3⟩ := ih (b.applyItem (.assign k' txt))
     have hc := applyItem_assign_charset b k' txt
-    refine ⟨by rw [h1, hc.1], by rw [h2, hc.2], ?_⟩
+    refine ⟨by rw [h1, hc.1], by rw [h2, hc.2.1], by rw [hg, hc.2.2], ?_⟩
     intro k
-    rw [h3 k, applyItem_assign_get]
+    have h3k := h3 k
+    rw [get_cons]
     cases hr : AMap.get l k with
-    | some x => simp [get_cons, hr]
+    | some x =>
+      rw [hr] at h3k
+      simp only [Option.some_or] at h3k ⊢
+      rw [hc.2.2] at h3k
+      exact h3k
     | none =>
+      rw [hr] at h3k
+      simp only at h3k
       by_cases hk : k' = k
-      · subst hk; simp [get_cons, hr]
+      · subst hk
+        simp only [↓reduceIte, Option.none_or]
+        intro hsf
+        rw [h3k, applyItem_assign_get]
+        simp only [↓reduceIte, assigned]
+        rw [evalText_sessionFree b.globals b.vars [] txt hsf]
       · have : ¬ k = k' := fun e => hk e.symm
-        simp [get_cons, hr, hk, this]
+        simp only [hk, ↓reduceIte, Option.or_none]
+        rw [h3k, applyItem_assign_get]
+        simp [this]
 
 /-- Looking up a name in a list whose values are determined by the names. -/
 theorem get_map_keyfun {α β : Type} (xs : AMap α) (g : String → String) (d : String → β) (k : String) :
@@ -283,90 +354,164 @@ theorem get_map_keyfun {α β : Type} (xs : AMap α) (g : String → String) (d 
       · have : ¬ k = g p.1 := fun e => h2 e.symm
         simp [h1, h2, this]
 
-theorem keys_wireVars (v : Bool) (m : AMap Val) : AMap.keys (wireVars v m) = m.map (fun p => wireKey v p.1) := by
+theorem keys_wireVars (v : Bool) (m : AMap Val) :
+    AMap.keys (wireVars v m) = (sentVars v m).map (fun p => wireKey v p.1) := by
   simp [AMap.keys, wireVars]
 
-theorem expectedVar_of_none (v : Bool) (vars : AMap Val) (k : String)
-    (h : AMap.get (wireVars v vars) k = none) : expectedVar v vars k = none := by simp [expectedVar, h]
+theorem wireKey_idem (v : Bool) (k : String) : wireKey v (wireKey v k) = wireKey v k := by
+  unfold wireKey
+  by_cases h : (k == "tx_read_only" && v) = true
+  · simp only [h, ↓reduceIte]
+    have : ("transaction_read_only" == "tx_read_only") = false := by decide
+    simp [this]
+  · simp [h]
+
+/-- Every recorded variable is assigned under its backend name — by itself, or
+    by the variable that bears that name. -/
+theorem wireKey_assigned (v : Bool) (m : AMap Val) (u : String) (hu : u ∈ AMap.keys m) :
+    wireKey v u ∈ AMap.keys (wireVars v m) := by
+  rw [keys_wireVars]
+  obtain ⟨p, hp, hpu⟩ := List.mem_map.mp hu
+  by_cases hf : (!(wireKey v p.1 != p.1 && AMap.has m (wireKey v p.1))) = true
+  · exact List.mem_map.mpr ⟨p, List.mem_filter.mpr ⟨hp, hf⟩, by rw [hpu]⟩
+  · -- left out: the record holds a variable of the backend name, and that one is sent
+    have hf' : (wireKey v p.1 != p.1 && AMap.has m (wireKey v p.1)) = true := by simpa using hf
+    simp only [Bool.and_eq_true] at hf'
+    obtain ⟨_, hhas⟩ := hf'
+    obtain ⟨q, hq, hqk⟩ := List.mem_map.mp ((has_iff m _).mp hhas)
+    refine List.mem_map.mpr ⟨q, List.mem_filter.mpr ⟨hq, ?_⟩, ?_⟩
+    · have : wireKey v q.1 = q.1 := by rw [hqk, wireKey_idem]
+      simp [this]
+    · rw [hqk, wireKey_idem, hpu]
+
+theorem mem_keys_of_sent (v : Bool) (m : AMap Val) (k : String) (h : k ∈ AMap.keys (wireVars v m)) :
+    ∃ q ∈ m, wireKey v q.1 = k := by
+  rw [keys_wireVars] at h
+  obtain ⟨q, hq, hqk⟩ := List.mem_map.mp h
+  exact ⟨q, (List.mem_filter.mp hq).1, hqk⟩
+
+theorem expectedVar_of_none (v : Bool) (g : AMap String) (vars : AMap Val) (k : String)
+    (h : AMap.get (wireVars v vars) k = none) : expectedVar v g vars k = none := by simp [expectedVar, h]
+
+theorem expectedVar_of_some (v : Bool) (g : AMap String) (vars : AMap Val) (k txt : String)
+    (h : AMap.get (wireVars v vars) k = some txt) : expectedVar v g vars k = assigned g k txt := by
+  simp [expectedVar, h, assigned]
 
 /-- The effect of the statement `WriteSetStatement` builds, on a backend that
     held the settings `ov`, when every variable that left the record is listed
-    in `unused`: the backend holds exactly the recorded variables afterwards. -/
+    in `unused`: the backend holds the recorded variables afterwards and
+    nothing else. -/
 theorem apply_setItems (c : Conn) (collName : String) (unused : AMap Val)
     (b : Backend) (ov : AMap Val)
-    (hb : ∀ k, AMap.get b.vars k = expectedVar c.v803 ov k)
+    (hb : VarsMatch c.v803 b.globals ov b.vars)
     (h2 : ∀ u, AMap.get ov u ≠ none → AMap.get c.sv.variables u = none → u ∈ AMap.keys unused) :
     (b.apply (setItems c collName unused)).charset = c.charset ∧
     (b.apply (setItems c collName unused)).collation = collName ∧
-    ∀ k, AMap.get (b.apply (setItems c collName unused)).vars k = expectedVar c.v803 c.sv.variables k := by
+    (b.apply (setItems c collName unused)).globals = b.globals ∧
+    VarsMatch c.v803 b.globals c.sv.variables (b.apply (setItems c collName unused)).vars := by
   unfold Backend.apply setItems
   simp only [List.foldl_cons]
-  obtain ⟨a1, a2, a3⟩ := apply_assigns (setAssigns c unused) (b.applyItem (Item.names c.charset collName))
-  refine ⟨by rw [a1]; rfl, by rw [a2]; rfl, ?_⟩
+  obtain ⟨a1, a2, ag, a3⟩ := apply_assigns (setAssigns c unused) (b.applyItem (Item.names c.charset collName))
+  refine ⟨by rw [a1]; rfl, by rw [a2]; rfl, by rw [ag]; rfl, ?_⟩
   intro k
-  rw [a3 k]
+  have a3k := a3 k
   have hbv : (b.applyItem (Item.names c.charset collName)).vars = b.vars := rfl
-  rw [hbv]
-  unfold setAssigns
-  simp only [get_append]
+  have hbg : (b.applyItem (Item.names c.charset collName)).globals = b.globals := rfl
+  rw [hbv, hbg] at a3k
   have hres := get_map_keyfun
-    (unused.filter (fun p => !((c.sv.variables.map (fun p => wireKey c.v803 p.1)).contains (wireKey c.v803 p.1))))
+    (unused.filter (fun p => !(((sentVars c.v803 c.sv.variables).map (fun p => wireKey c.v803 p.1)).contains (wireKey c.v803 p.1))))
     (wireKey c.v803) defaultText k
-  rw [hres]
-  by_cases hk : k ∈ (unused.filter (fun p => !((c.sv.variables.map (fun p => wireKey c.v803 p.1)).contains
+  have hget : AMap.get (setAssigns c unused) k =
+      (if k ∈ (unused.filter (fun p => !(((sentVars c.v803 c.sv.variables).map (fun p => wireKey c.v803 p.1)).contains
+          (wireKey c.v803 p.1)))).map (fun p => wireKey c.v803 p.1) then some (defaultText k) else none).or
+        (AMap.get (wireVars c.v803 c.sv.variables) k) := by
+    unfold setAssigns
+    simp only [get_append]
+    rw [hres]
+  rw [hget] at a3k
+  by_cases hk : k ∈ (unused.filter (fun p => !(((sentVars c.v803 c.sv.variables).map (fun p => wireKey c.v803 p.1)).contains
       (wireKey c.v803 p.1)))).map (fun p => wireKey c.v803 p.1)
   · -- the statement resets `k`; it does not assign it
-    simp only [hk, ↓reduceIte, Option.some_or, isReset_defaultText]
+    simp only [hk, ↓reduceIte, Option.some_or] at a3k
+    have hval := a3k (sessionFreeB_defaultText k)
     obtain ⟨p, hp, hpk⟩ := List.mem_map.mp hk
     have hpf := (List.mem_filter.mp hp).2
-    have hnot : k ∉ c.sv.variables.map (fun p => wireKey c.v803 p.1) := by
+    have hnot : k ∉ (sentVars c.v803 c.sv.variables).map (fun p => wireKey c.v803 p.1) := by
       rw [← hpk]; simpa using hpf
     have : AMap.get (wireVars c.v803 c.sv.variables) k = none := by
       rw [get_eq_none_iff, keys_wireVars]; exact hnot
-    rw [expectedVar_of_none _ _ _ this]
-  · simp only [hk, ↓reduceIte, Option.none_or]
+    rw [this]
+    simp only
+    rw [hval]
+    simp [assigned, evalText_defaultText, isReset_defaultText]
+  · simp only [hk, ↓reduceIte, Option.none_or] at a3k
     cases hg : AMap.get (wireVars c.v803 c.sv.variables) k with
-    | some txt => simp [expectedVar, hg]
+    | some txt =>
+      rw [hg] at a3k
+      simp only at a3k ⊢
+      intro hsf
+      rw [a3k hsf, expectedVar_of_some _ _ _ _ _ hg]
     | none =>
-      simp only
-      rw [hb k, expectedVar_of_none _ _ _ hg]
+      rw [hg] at a3k
+      simp only at a3k ⊢
+      rw [a3k]
       -- `k` is neither assigned nor reset: the backend did not hold it before
-      apply expectedVar_of_none
-      rw [get_eq_none_iff, keys_wireVars]
-      intro hin
-      obtain ⟨q, hq, hqk⟩ := List.mem_map.mp hin
-      have hqo : AMap.get ov q.1 ≠ none := by
-        rw [← mem_keys_iff]; exact List.mem_map.mpr ⟨q, hq, rfl⟩
-      have hnotAssigned : k ∉ c.sv.variables.map (fun p => wireKey c.v803 p.1) := by
-        rw [← keys_wireVars, ← get_eq_none_iff]; exact hg
-      have hqn : AMap.get c.sv.variables q.1 = none := by
-        rw [get_eq_none_iff]
-        intro hin2
-        obtain ⟨r, hr, hrq⟩ := List.mem_map.mp hin2
-        apply hnotAssigned
-        rw [← hqk]
-        exact List.mem_map.mpr ⟨r, hr, by rw [hrq]⟩
-      have hu := h2 q.1 hqo hqn
-      obtain ⟨u, huu, huq⟩ := List.mem_map.mp hu
-      apply hk
-      refine List.mem_map.mpr ⟨u, List.mem_filter.mpr ⟨huu, ?_⟩, ?_⟩
-      · have : wireKey c.v803 u.1 = k := by rw [huq, hqk]
-        simpa [this] using hnotAssigned
-      · rw [huq, hqk]
+      have hbk := hb k
+      cases ho : AMap.get (wireVars c.v803 ov) k with
+      | none => rw [ho] at hbk; exact hbk
+      | some txt' =>
+        exfalso
+        have hin : k ∈ AMap.keys (wireVars c.v803 ov) := by
+          rw [mem_keys_iff, ho]; simp
+        obtain ⟨q, hq, hqk⟩ := mem_keys_of_sent _ _ _ hin
+        have hqo : AMap.get ov q.1 ≠ none := by
+          rw [← mem_keys_iff]; exact List.mem_map.mpr ⟨q, hq, rfl⟩
+        have hnotAssigned : k ∉ AMap.keys (wireVars c.v803 c.sv.variables) := by
+          rw [← get_eq_none_iff]; exact hg
+        have hqn : AMap.get c.sv.variables q.1 = none := by
+          rw [get_eq_none_iff]
+          intro hin2
+          apply hnotAssigned
+          rw [← hqk]
+          exact wireKey_assigned _ _ _ hin2
+        have hu := h2 q.1 hqo hqn
+        obtain ⟨u, huu, huq⟩ := List.mem_map.mp hu
+        apply hk
+        refine List.mem_map.mpr ⟨u, List.mem_filter.mpr ⟨huu, ?_⟩, ?_⟩
+        · have : wireKey c.v803 u.1 = k := by rw [huq, hqk]
+          rw [keys_wireVars] at hnotAssigned
+          simpa [this] using hnotAssigned
+        · rw [huq, hqk]
 
 /-! ### settings and their backend image -/
 
-theorem get_wireVars_false (m : AMap Val) (k : String) :
-    AMap.get (wireVars false m) k = (AMap.get m k).map (valueText k) := by
+/-- The assignments a record is sent as, when none of its variables is left out. -/
+def wireMap (v : Bool) (m : AMap Val) : AMap String :=
+  m.map (fun p => (wireKey v p.1, valueText (wireKey v p.1) p.2))
+
+theorem wireVars_eq (v : Bool) (m : AMap Val) : wireVars v m = wireMap v (sentVars v m) := rfl
+
+theorem sentVars_false (m : AMap Val) : sentVars false m = m := by
+  unfold sentVars
+  apply List.filter_eq_self.mpr
+  intro p _
+  simp
+
+theorem get_wireMap_false (m : AMap Val) (k : String) :
+    AMap.get (wireMap false m) k = (AMap.get m k).map (valueText k) := by
   induction m with
-  | nil => simp [wireVars]
+  | nil => simp [wireMap]
   | cons p m ih =>
     obtain ⟨k', v⟩ := p
-    have : wireVars false ((k', v) :: m) = (k', valueText k' v) :: wireVars false m := by simp [wireVars]
+    have : wireMap false ((k', v) :: m) = (k', valueText k' v) :: wireMap false m := by simp [wireMap]
     rw [this, get_cons, get_cons, ih]
     by_cases hk : k' = k
     · subst hk; cases AMap.get m k' <;> simp
     · cases AMap.get m k <;> simp [hk]
+
+theorem get_wireVars_false (m : AMap Val) (k : String) :
+    AMap.get (wireVars false m) k = (AMap.get m k).map (valueText k) := by
+  rw [wireVars_eq, sentVars_false, get_wireMap_false]
 
 theorem has_cons (k' : String) (v : Val) (m : AMap Val) (k : String) :
     AMap.has ((k', v) :: m) k = (AMap.has m k || decide (k' = k)) := by
@@ -378,15 +523,15 @@ theorem has_cons (k' : String) (v : Val) (m : AMap Val) (k : String) :
 
 /-- With at most one of the two spellings in use, what a ≥ 8.0.3 backend is
     sent depends on the settings only as a map (not on their order). -/
-theorem get_wireVars_true (m : AMap Val)
+theorem get_wireMap_true (m : AMap Val)
     (h : ¬ (AMap.has m "tx_read_only" = true ∧ AMap.has m "transaction_read_only" = true)) (k : String) :
-    AMap.get (wireVars true m) k =
+    AMap.get (wireMap true m) k =
       if k = "transaction_read_only" then
         ((AMap.get m "tx_read_only").or (AMap.get m "transaction_read_only")).map (valueText "transaction_read_only")
       else if k = "tx_read_only" then none
       else (AMap.get m k).map (valueText k) := by
   induction m with
-  | nil => simp [wireVars]
+  | nil => simp [wireMap]
   | cons p m ih =>
     obtain ⟨k', v⟩ := p
     have hm : ¬ (AMap.has m "tx_read_only" = true ∧ AMap.has m "transaction_read_only" = true) := by
@@ -394,8 +539,8 @@ theorem get_wireVars_true (m : AMap Val)
       apply h
       simp [has_cons, h1, h2]
     have ih := ih hm
-    have hw : wireVars true ((k', v) :: m) = (wireKey true k', valueText (wireKey true k') v) :: wireVars true m := by
-      simp [wireVars]
+    have hw : wireMap true ((k', v) :: m) = (wireKey true k', valueText (wireKey true k') v) :: wireMap true m := by
+      simp [wireMap]
     rw [hw, get_cons, ih]
     simp only [has_cons] at h
     have hne : ("tx_read_only" : String) ≠ "transaction_read_only" := by decide
@@ -448,17 +593,94 @@ theorem get_wireVars_true (m : AMap Val)
             · subst hkk; cases AMap.get m k' <;> simp
             · cases AMap.get m k <;> simp [hkk]
 
-/-- Two alias-free settings that agree as maps have the same backend image. -/
-theorem expectedVar_congr (v : Bool) (a b : AMap Val) (hab : ∀ k, AMap.get a k = AMap.get b k)
-    (hb : AliasFree v b) (k : String) : expectedVar v a k = expectedVar v b k := by
-  unfold expectedVar
+theorem wireKey_true_of_ne (k : String) (h : k ≠ "tx_read_only") : wireKey true k = k := by
+  simp [wireKey, h]
+
+theorem wireKey_true_tx : wireKey true "tx_read_only" = "transaction_read_only" := by decide
+
+/-- **The two spellings are sent deterministically.**  What a ≥ 8.0.3 backend
+    is sent for a record depends on the record only as a map — not on the order
+    in which the Go map is walked: `transaction_read_only` is assigned the value
+    recorded under that name when there is one, otherwise the value recorded as
+    `tx_read_only`; `tx_read_only` itself is never sent; every other variable is
+    sent under its own name. -/
+theorem get_wireVars_true (m : AMap Val) (k : String) :
+    AMap.get (wireVars true m) k =
+      if k = "transaction_read_only" then
+        ((AMap.get m "transaction_read_only").or (AMap.get m "tx_read_only")).map (valueText "transaction_read_only")
+      else if k = "tx_read_only" then none
+      else (AMap.get m k).map (valueText k) := by
+  have hne : ("tx_read_only" : String) ≠ "transaction_read_only" := by decide
+  by_cases hb : AMap.has m "transaction_read_only" = true
+  · -- the record holds the backend's own name: the other spelling is left out
+    have hs : sentVars true m = AMap.del m "tx_read_only" := by
+      unfold sentVars AMap.del
+      apply List.filter_congr
+      intro p _
+      by_cases hp : p.1 = "tx_read_only"
+      · rw [hp, wireKey_true_tx, hb]
+        have : ("transaction_read_only" != "tx_read_only") = true := by decide
+        simp [this]
+      · rw [wireKey_true_of_ne _ hp]
+        simp [hp]
+    have hmap : wireMap true (AMap.del m "tx_read_only") = wireMap false (AMap.del m "tx_read_only") := by
+      unfold wireMap
+      apply List.map_congr_left
+      intro p hp
+      have hp1 : p.1 ≠ "tx_read_only" := by
+        have := (List.mem_filter.mp hp).2
+        simpa using this
+      rw [wireKey_true_of_ne _ hp1, wireKey_false]
+    rw [wireVars_eq, hs, hmap, get_wireMap_false, get_del]
+    obtain ⟨x, hx⟩ : ∃ x, AMap.get m "transaction_read_only" = some x := by
+      unfold AMap.has at hb
+      cases hg : AMap.get m "transaction_read_only" with
+      | none => simp [hg] at hb
+      | some x => exact ⟨x, rfl⟩
+    by_cases hk : k = "transaction_read_only"
+    · subst hk
+      have : ¬ ("transaction_read_only" : String) = "tx_read_only" := fun e => hne e.symm
+      simp [this, hx]
+    · by_cases hk2 : k = "tx_read_only"
+      · simp [hk, hk2]
+      · simp [hk, hk2]
+  · -- it does not: every variable is sent
+    have hb' : AMap.has m "transaction_read_only" = false := by simpa using hb
+    have hs : sentVars true m = m := by
+      unfold sentVars
+      apply List.filter_eq_self.mpr
+      intro p _
+      by_cases hp : p.1 = "tx_read_only"
+      · rw [hp, wireKey_true_tx, hb']; simp
+      · rw [wireKey_true_of_ne _ hp]; simp
+    rw [wireVars_eq, hs, get_wireMap_true m (by intro ⟨_, h2⟩; exact hb h2)]
+    have hn : AMap.get m "transaction_read_only" = none := by
+      unfold AMap.has at hb'
+      cases hg : AMap.get m "transaction_read_only" with
+      | none => rfl
+      | some x => simp [hg] at hb'
+    by_cases hk : k = "transaction_read_only"
+    · simp [hk, hn]
+    · simp [hk]
+
+/-- Two records that agree as maps are sent as the same assignments. -/
+theorem wireVars_congr (v : Bool) (a b : AMap Val) (hab : ∀ k, AMap.get a k = AMap.get b k) (k : String) :
+    AMap.get (wireVars v a) k = AMap.get (wireVars v b) k := by
   cases v with
   | false => rw [get_wireVars_false, get_wireVars_false, hab]
-  | true =>
-    have hb' := hb rfl
-    have ha' : ¬ (AMap.has a "tx_read_only" = true ∧ AMap.has a "transaction_read_only" = true) := by
-      unfold AMap.has at hb' ⊢; rw [hab, hab]; exact hb'
-    rw [get_wireVars_true a ha', get_wireVars_true b hb', hab, hab, hab]
+  | true => rw [get_wireVars_true, get_wireVars_true, hab, hab, hab]
+
+theorem expectedVar_congr (v : Bool) (g : AMap String) (a b : AMap Val) (hab : ∀ k, AMap.get a k = AMap.get b k)
+    (k : String) : expectedVar v g a k = expectedVar v g b k := by
+  unfold expectedVar
+  rw [wireVars_congr v a b hab]
+
+theorem varsMatch_congr (v : Bool) (g : AMap String) (a b : AMap Val) (bv : AMap String)
+    (hab : ∀ k, AMap.get a k = AMap.get b k) (h : VarsMatch v g a bv) : VarsMatch v g b bv := by
+  intro k
+  have hk := h k
+  rw [wireVars_congr v a b hab, expectedVar_congr v g a b hab] at hk
+  exact hk
 
 /-! ### one connection: belief, backend, `InitializeSessionVariables` -/
 
@@ -466,7 +688,9 @@ theorem expectedVar_congr (v : Bool) (a b : AMap Val) (hab : ∀ k, AMap.get a k
 abbrev trimQ (s : String) : String := trimSet ['"', '\'', '`'] s
 
 /-- The proxy's record of a pooled connection describes the backend session
-    behind it exactly (and nothing is waiting to be reset). -/
+    behind it (and nothing is waiting to be reset): charset, collation, every
+    recorded variable whose value does not read the session, and no variable
+    that is not recorded. -/
 structure Consistent (t : Tables) (s : Slot) : Prop where
   unused : s.conn.sv.unused = []
   ackedCharset : s.conn.ackedCharset = s.conn.charset
@@ -474,7 +698,7 @@ structure Consistent (t : Tables) (s : Slot) : Prop where
   ackedVariables : s.conn.ackedVariables = s.conn.sv
   charset : s.be.charset = s.conn.charset
   collation : t.collationName s.conn.collation = some s.be.collation
-  vars : ∀ k, AMap.get s.be.vars k = expectedVar s.conn.v803 s.conn.sv.variables k
+  vars : VarsMatch s.conn.v803 s.be.globals s.conn.sv.variables s.be.vars
 
 theorem setCharset_cases (t : Tables) (c : Conn) (cs : String) (coll : Nat) :
     setCharset t c cs coll = (c, none) ∨
@@ -527,16 +751,16 @@ theorem restore_eq (t : Tables) (s : Slot) (hc : Consistent t s) (cs : String) (
 
 /-- The write step of `InitializeSessionVariables` / `SyncSessionVariables`
     on a consistent connection whose record was just moved to the client's
-    settings: either the backend takes the statement and then holds exactly
-    the client's variables, or it rejects it and the connection is as before. -/
+    settings: either the backend takes the statement and then holds the
+    client's variables, or it rejects it and the connection is as before. -/
 theorem write_after_set (t : Tables) (s : Slot) (hc : Consistent t s) (cl : Client) (cs' : String) (coll' : Nat)
     (collName : String) (hcoll : t.collationName coll' = some collName) (f : Fault) :
     let c2 : Conn := { s.conn with charset := cs', collation := coll', sv := (s.conn.sv.setEqualsWith cl.vars).1 }
     (f = .none →
       ∃ stmt c3 b3, writeSetStatement t c2 s.be f = (c3, b3, .ok stmt) ∧
         Consistent t { conn := c3, be := b3 } ∧ c3.coll247 = s.conn.coll247 ∧ c3.v803 = s.conn.v803 ∧
-        c3.closed = s.conn.closed ∧ b3.charset = cs' ∧ b3.collation = collName ∧
-        ∀ k, AMap.get b3.vars k = expectedVar s.conn.v803 (s.conn.sv.setEqualsWith cl.vars).1.variables k) ∧
+        c3.closed = s.conn.closed ∧ b3.charset = cs' ∧ b3.collation = collName ∧ b3.globals = s.be.globals ∧
+        VarsMatch s.conn.v803 s.be.globals (s.conn.sv.setEqualsWith cl.vars).1.variables b3.vars) ∧
     (f ≠ .none →
       ∃ stmt sm, writeSetStatement t c2 s.be f = (s.conn, s.be, .rejected stmt sm)) := by
   intro c2
@@ -553,7 +777,7 @@ theorem write_after_set (t : Tables) (s : Slot) (hc : Consistent t s) (cl : Clie
         right
         refine ⟨ho, ?_⟩
         rw [← spec.vars k]; exact hn)
-    refine ⟨_, _, _, rfl, ?_, rfl, rfl, rfl, happ.1, happ.2.1, happ.2.2⟩
+    refine ⟨_, _, _, rfl, ?_, rfl, rfl, rfl, happ.1, happ.2.1, happ.2.2.1, happ.2.2.2⟩
     exact {
       unused := rfl
       ackedCharset := rfl
@@ -561,7 +785,9 @@ theorem write_after_set (t : Tables) (s : Slot) (hc : Consistent t s) (cl : Clie
       ackedVariables := rfl
       charset := happ.1
       collation := by show t.collationName coll' = _; rw [hcoll, happ.2.1]
-      vars := happ.2.2 }
+      vars := by
+        show VarsMatch s.conn.v803 (s.be.apply _).globals _ _
+        rw [happ.2.2.1]; exact happ.2.2.2 }
   · intro hf
     rw [write_spec t c2 s.be f collName hcoll2]
     have hr := restore_eq t s hc cs' coll' { (s.conn.sv.setEqualsWith cl.vars).1 with unused := [] }
@@ -570,29 +796,50 @@ theorem write_after_set (t : Tables) (s : Slot) (hc : Consistent t s) (cl : Clie
     | rejSqlMode => exact ⟨_, true, by simp only; rw [show ({ c2 with sv := { c2.sv with unused := [] } } : Conn) = { s.conn with charset := cs', collation := coll', sv := { (s.conn.sv.setEqualsWith cl.vars).1 with unused := [] } } from rfl, hr]⟩
     | rejOther => exact ⟨_, false, by simp only; rw [show ({ c2 with sv := { c2.sv with unused := [] } } : Conn) = { s.conn with charset := cs', collation := coll', sv := { (s.conn.sv.setEqualsWith cl.vars).1 with unused := [] } } from rfl, hr]⟩
 
-theorem conn_eta (c : Conn) : ({ c with sv := c.sv } : Conn) = c := by cases c; rfl
+/-- What `InitializeSessionVariables` does to the client's record: nothing to
+    its charset and collation; its variables are acknowledged when the
+    settings are in place, put back to the acknowledged ones when the SET
+    statement failed, untouched when `SetCharset` failed. -/
+theorem init_client (t : Tables) (s : Slot) (cl : Client) (f : Fault) :
+    (initializeSessionVariables t s cl f).2.1 =
+      match (initializeSessionVariables t s cl f).2.2 with
+      | .ok _ => { cl with vars := cl.vars.acknowledge }
+      | .errCharset => cl
+      | .errSet _ => { cl with vars := cl.vars.restoreAcknowledged } := by
+  unfold initializeSessionVariables
+  cases hsc : setCharset t s.conn cl.charset cl.collation with
+  | mk c1 o =>
+    cases o with
+    | none => rfl
+    | some ch =>
+      simp only
+      by_cases hc : (ch || (setSessionVariables c1 cl.vars).2) = true
+      · simp only [hc, ↓reduceIte]
+        cases hw : writeSetStatement t (setSessionVariables c1 cl.vars).1 s.be f with
+        | mk c3 r =>
+          cases r with
+          | mk b3 wr => cases wr <;> rfl
+      · simp only [hc]
+        rfl
 
 /-- **sync_correct / belief_inv for one connection.**  On a connection whose
     record describes its backend session, `InitializeSessionVariables` — for
     any client, whatever the backend does with the SET statement — leaves a
     connection whose record again describes its backend session; and when it
-    succeeds, the client's record is untouched and the backend session carries
-    exactly the client's settings (provided the client does not ask a ≥ 8.0.3
-    backend for both spellings of `transaction_read_only`). -/
-theorem init_spec (t : Tables) (vm : VerifyMap) (s : Slot) (cl : Client) (f : Fault) (hc : Consistent t s) :
-    Consistent t (initializeSessionVariables t vm s cl f).1 ∧
-    (initializeSessionVariables t vm s cl f).1.conn.coll247 = s.conn.coll247 ∧
-    (initializeSessionVariables t vm s cl f).1.conn.v803 = s.conn.v803 ∧
-    (initializeSessionVariables t vm s cl f).1.conn.closed = s.conn.closed ∧
-    ((initializeSessionVariables t vm s cl f).2.2.isOk = true →
-      (initializeSessionVariables t vm s cl f).2.1 = cl ∧
-      (AliasFree s.conn.v803 cl.vars.variables →
-        Matches t s.conn.coll247 s.conn.v803 (initializeSessionVariables t vm s cl f).1.be cl)) := by
+    succeeds the backend session carries the client's settings. -/
+theorem init_spec (t : Tables) (s : Slot) (cl : Client) (f : Fault) (hc : Consistent t s) :
+    Consistent t (initializeSessionVariables t s cl f).1 ∧
+    (initializeSessionVariables t s cl f).1.conn.coll247 = s.conn.coll247 ∧
+    (initializeSessionVariables t s cl f).1.conn.v803 = s.conn.v803 ∧
+    (initializeSessionVariables t s cl f).1.conn.closed = s.conn.closed ∧
+    (initializeSessionVariables t s cl f).1.be.globals = s.be.globals ∧
+    ((initializeSessionVariables t s cl f).2.2.isOk = true →
+      Matches t s.conn.coll247 s.conn.v803 (initializeSessionVariables t s cl f).1.be cl) := by
   have spec := setEqualsWith_spec s.conn.sv cl.vars
   rcases setCharset_cases t s.conn cl.charset cl.collation with h | ⟨h, hcs, hcl⟩ | ⟨h, hvalid⟩
   · -- SetCharset fails: nothing was touched
     simp only [initializeSessionVariables, h]
-    refine ⟨hc, ?_, ?_, ?_, ?_⟩ <;> simp [InitRes.isOk]
+    refine ⟨hc, ?_, ?_, ?_, ?_, ?_⟩ <;> simp [InitRes.isOk]
   · -- charset and collation already as requested
     simp only [initializeSessionVariables, h, setSessionVariables, Bool.false_or]
     by_cases hch : (s.conn.sv.setEqualsWith cl.vars).2 = true
@@ -600,30 +847,27 @@ theorem init_spec (t : Tables) (vm : VerifyMap) (s : Slot) (cl : Client) (f : Fa
       have hw := write_after_set t s hc cl s.conn.charset s.conn.collation s.be.collation hc.collation f
       simp only at hw
       by_cases hf : f = .none
-      · obtain ⟨stmt, c3, b3, hwr, hcons, h247, h803, hcl3, hbc, hbl, hbv⟩ := hw.1 hf
+      · obtain ⟨stmt, c3, b3, hwr, hcons, h247, h803, hcl3, hbc, hbl, hbg, hbv⟩ := hw.1 hf
         rw [hwr]
-        refine ⟨hcons, h247, h803, hcl3, fun _ => ⟨rfl, fun haf => ⟨?_, ?_, ?_⟩⟩⟩
+        refine ⟨hcons, h247, h803, hcl3, hbg, fun _ => ⟨?_, ?_, ?_⟩⟩
         · show b3.charset = _; rw [hbc, hcs]
         · show t.collationName _ = some b3.collation; rw [hbl, ← hcl]; exact hc.collation
-        · intro k
-          show AMap.get b3.vars k = _
-          rw [hbv k]; exact expectedVar_congr _ _ _ spec.vars haf k
+        · show VarsMatch s.conn.v803 b3.globals cl.vars.variables b3.vars
+          rw [hbg]; exact varsMatch_congr _ _ _ _ _ spec.vars hbv
       · obtain ⟨stmt, sm, hwr⟩ := hw.2 hf
         rw [hwr]
-        refine ⟨hc, ?_, ?_, ?_, ?_⟩ <;> simp [InitRes.isOk]
+        refine ⟨hc, ?_, ?_, ?_, ?_, ?_⟩ <;> simp [InitRes.isOk]
     · have hch' : (s.conn.sv.setEqualsWith cl.vars).2 = false := by simpa using hch
       simp only [hch', Bool.false_eq_true, ↓reduceIte]
       have hsame := spec.same hch'
       rw [hsame]
-      refine ⟨hc, trivial, trivial, trivial, fun _ => ⟨trivial, fun haf => ⟨?_, ?_, ?_⟩⟩⟩
+      refine ⟨hc, trivial, trivial, trivial, trivial, fun _ => ⟨?_, ?_, ?_⟩⟩
       · show s.be.charset = _; rw [hc.charset, hcs]
       · show t.collationName _ = some s.be.collation; rw [← hcl]; exact hc.collation
-      · intro k
-        show AMap.get s.be.vars k = _
-        rw [hc.vars k]
+      · show VarsMatch s.conn.v803 s.be.globals cl.vars.variables s.be.vars
         have hv := spec.vars
         rw [hsame] at hv
-        exact expectedVar_congr _ _ _ hv haf k
+        exact varsMatch_congr _ _ _ _ _ hv hc.vars
       -- (the record was not touched: `hsame`)
   · -- charset or collation changes: a statement is always sent
     simp only [initializeSessionVariables, h, setSessionVariables, Bool.true_or, ↓reduceIte]
@@ -634,17 +878,16 @@ theorem init_spec (t : Tables) (vm : VerifyMap) (s : Slot) (cl : Client) (f : Fa
         (effectiveCollation t s.conn.coll247 (trimQ cl.charset) cl.collation) collName hn f
       simp only at hw
       by_cases hf : f = .none
-      · obtain ⟨stmt, c3, b3, hwr, hcons, h247, h803, hcl3, hbc, hbl, hbv⟩ := hw.1 hf
+      · obtain ⟨stmt, c3, b3, hwr, hcons, h247, h803, hcl3, hbc, hbl, hbg, hbv⟩ := hw.1 hf
         rw [hwr]
-        refine ⟨hcons, h247, h803, hcl3, fun _ => ⟨rfl, fun haf => ⟨?_, ?_, ?_⟩⟩⟩
+        refine ⟨hcons, h247, h803, hcl3, hbg, fun _ => ⟨?_, ?_, ?_⟩⟩
         · show b3.charset = _; rw [hbc]
         · show t.collationName _ = some b3.collation; rw [hbl]; exact hn
-        · intro k
-          show AMap.get b3.vars k = _
-          rw [hbv k]; exact expectedVar_congr _ _ _ spec.vars haf k
+        · show VarsMatch s.conn.v803 b3.globals cl.vars.variables b3.vars
+          rw [hbg]; exact varsMatch_congr _ _ _ _ _ spec.vars hbv
       · obtain ⟨stmt, sm, hwr⟩ := hw.2 hf
         rw [hwr]
-        refine ⟨hc, ?_, ?_, ?_, ?_⟩ <;> simp [InitRes.isOk]
+        refine ⟨hc, ?_, ?_, ?_, ?_, ?_⟩ <;> simp [InitRes.isOk]
 
 /-- `SyncSessionVariables` at the start of a transaction: the connection stays
     consistent, or it has been closed (and will be dropped by the pool). -/
@@ -692,9 +935,11 @@ theorem inv_set_slot (t : Tables) (s : Sys) (k : Nat) (sl : Slot) (cls : List Cl
   · rw [h1]; exact h
 
 /-- **belief_inv (one step).**  Whatever operation comes next — a SET by any
-    client, a statement or a transaction start by any client on any connection,
-    with the backend accepting or rejecting the SET statement — every pooled
-    connection's record still describes its backend session afterwards. -/
+    client (with literal values or with expressions, whether or not they read
+    the session), a statement or a transaction start by any client on any
+    connection, with the backend accepting or rejecting the SET statement —
+    every pooled connection's record still describes its backend session
+    afterwards. -/
 theorem step_inv (cfg : Cfg) (fresh : Fresh) (s : Sys) (op : Op) (hf : FreshOK cfg.tables fresh)
     (hi : Inv cfg.tables s) : Inv cfg.tables (step cfg fresh s op).1 := by
   cases op with
@@ -708,7 +953,7 @@ theorem step_inv (cfg : Cfg) (fresh : Fresh) (s : Sys) (op : Op) (hf : FreshOK c
     split
     · rename_i cl sl hcl hsl
       have hmem : sl ∈ s.slots := List.mem_of_getElem? hsl
-      have hs := init_spec cfg.tables cfg.verifyMap sl cl f (hi sl hmem)
+      have hs := init_spec cfg.tables sl cl f (hi sl hmem)
       exact inv_set_slot _ s k _ _ hi (recycle_consistent _ _ _ (hf k) (Or.inr hs.1))
     · exact hi
   | sync c k f =>
@@ -727,31 +972,58 @@ theorem runOps_inv (cfg : Cfg) (fresh : Fresh) (ops : List Op) (s : Sys) (hf : F
   | nil => exact hi
   | cons op ops ih => exact ih _ (step_inv cfg fresh s op hf hi)
 
-/-- **no_leak (one step).**  When a client's statement executes on a pooled
-    connection — whoever used that connection before, whatever they had set —
-    the backend session carries exactly the executing client's own settings:
-    its charset, its collation, each of its session and user variables, and
-    the server default for every other variable.  The client's record is not
-    altered by a successful preparation.  (`AliasFree`: the client has not
-    asked a ≥ 8.0.3 backend for both spellings of `transaction_read_only`.) -/
-theorem run_matches (cfg : Cfg) (fresh : Fresh) (s : Sys) (c k : Nat) (f : Fault) (res : InitRes) (b : Backend)
+/-
+  Full statement of no_leak (not provable: the listed finding
+  `set-expression-reads-session-state`):
+
+    when a client's statement executes, the backend session carries the client's
+    charset and collation and, for EVERY variable `k`, the value the client set it
+    to — for a value that is an expression, the value that expression had in the
+    client's own session when the client sent the SET statement — and the server
+    default for every variable the client has not set.
+
+  What is proved (`Matches`/`VarsMatch`): the same, for every variable except
+  those whose recorded value reads the session (`@x = @y`, `@x = @x+1`,
+  `sql_mode = CONCAT(@@sql_mode, …)`): the proxy cannot evaluate such a value, it
+  re-sends the expression and the pooled connection evaluates it in whatever
+  session state it then has (`session_expression_leak_witness`).
+-/
+
+/-- **no_leak (one step), partial.**  When a client's statement executes on a
+    pooled connection — whoever used that connection before, whatever they had
+    set — the backend session carries the executing client's own settings: its
+    charset, its collation, each of its session and user variables whose value
+    does not read the session (every literal, `CONCAT('a','b')`, `@@GLOBAL.x`),
+    and the server default for every other variable.  A successful preparation
+    changes nothing in the client's record but the acknowledgement mark.  No
+    caveat is left for clients that hold both spellings of
+    `transaction_read_only` (`get_wireVars_true`). -/
+theorem run_matches_partial (cfg : Cfg) (fresh : Fresh) (s : Sys) (c k : Nat) (f : Fault) (res : InitRes) (b : Backend)
     (hi : Inv cfg.tables s) (h : (step cfg fresh s (.run c k f)).2 = .run res (some b)) :
     ∃ cl sl, s.clients[c]? = some cl ∧ s.slots[k]? = some sl ∧
-      (AliasFree sl.conn.v803 cl.vars.variables → Matches cfg.tables sl.conn.coll247 sl.conn.v803 b cl) ∧
-      (step cfg fresh s (.run c k f)).1.clients[c]? = some cl := by
+      Matches cfg.tables sl.conn.coll247 sl.conn.v803 b cl ∧ b.globals = sl.be.globals ∧
+      (step cfg fresh s (.run c k f)).1.clients[c]? = some { cl with vars := cl.vars.acknowledge } := by
   simp only [step] at h ⊢
   split at h
   · rename_i cl sl hcl hsl
     have hmem : sl ∈ s.slots := List.mem_of_getElem? hsl
-    have hs := init_spec cfg.tables cfg.verifyMap sl cl f (hi sl hmem)
+    have hs := init_spec cfg.tables sl cl f (hi sl hmem)
+    have hcli := init_client cfg.tables sl cl f
     simp only [Out.run.injEq] at h
     obtain ⟨_, h2⟩ := h
-    by_cases hok : (initializeSessionVariables cfg.tables cfg.verifyMap sl cl f).2.2.isOk = true
+    by_cases hok : (initializeSessionVariables cfg.tables sl cl f).2.2.isOk = true
     · simp only [hok, ↓reduceIte, Option.some.injEq] at h2
-      obtain ⟨hcl', hm⟩ := hs.2.2.2.2 hok
-      refine ⟨cl, sl, hcl, hsl, ?_, ?_⟩
+      have hm := hs.2.2.2.2.2 hok
+      refine ⟨cl, sl, hcl, hsl, ?_, ?_, ?_⟩
       · rw [← h2]; exact hm
+      · rw [← h2]; exact hs.2.2.2.2.1
       · simp only [hcl, hsl]
+        have hcl' : (initializeSessionVariables cfg.tables sl cl f).2.1 = { cl with vars := cl.vars.acknowledge } := by
+          rw [hcli]
+          cases hr : (initializeSessionVariables cfg.tables sl cl f).2.2 with
+          | ok st => rfl
+          | errCharset => rw [hr] at hok; simp [InitRes.isOk] at hok
+          | errSet st => rw [hr] at hok; simp [InitRes.isOk] at hok
         rw [hcl']
         have hlt : c < s.clients.length := by
           rcases List.getElem?_eq_some_iff.mp hcl with ⟨hlt, _⟩; exact hlt
@@ -766,18 +1038,20 @@ theorem step_out_run (cfg : Cfg) (fresh : Fresh) (s : Sys) (op : Op) (res : Init
   | run c k f => exact ⟨c, k, f, rfl⟩
   | sync c k f => simp only [step] at h; split at h <;> simp at h
 
-/-- **no_leak.**  In every history (any number of clients and connections, any
-    interleaving of SET statements, statement executions and transaction
-    starts, the backend rejecting any of the SET statements it is sent), every
-    statement that executes does so on a backend session that carries exactly
-    the executing client's settings at that moment. -/
-theorem no_leak (cfg : Cfg) (fresh : Fresh) (hf : FreshOK cfg.tables fresh) (ops : List Op) (s₀ : Sys)
+/-- **no_leak, partial.**  In every history (any number of clients and
+    connections, any interleaving of SET statements, statement executions and
+    transaction starts, the backend rejecting any of the SET statements it is
+    sent), every statement that executes does so on a backend session that
+    carries the executing client's settings at that moment (`Matches`: charset,
+    collation, every variable whose value does not read the session, nothing
+    else set).  The full statement and what is missing: see above. -/
+theorem no_leak_partial (cfg : Cfg) (fresh : Fresh) (hf : FreshOK cfg.tables fresh) (ops : List Op) (s₀ : Sys)
     (hi : Inv cfg.tables s₀) (i : Nat) (res : InitRes) (b : Backend)
     (h : (runOps cfg fresh s₀ ops).2[i]? = some (.run res (some b))) :
     ∃ c k f cl sl, ops[i]? = some (.run c k f) ∧
       (runOps cfg fresh s₀ (ops.take i)).1.clients[c]? = some cl ∧
       (runOps cfg fresh s₀ (ops.take i)).1.slots[k]? = some sl ∧
-      (AliasFree sl.conn.v803 cl.vars.variables → Matches cfg.tables sl.conn.coll247 sl.conn.v803 b cl) := by
+      Matches cfg.tables sl.conn.coll247 sl.conn.v803 b cl := by
   induction ops generalizing s₀ i with
   | nil => simp [runOps] at h
   | cons op ops ih =>
@@ -786,33 +1060,33 @@ theorem no_leak (cfg : Cfg) (fresh : Fresh) (hf : FreshOK cfg.tables fresh) (ops
       simp only [runOps, List.getElem?_cons_zero, Option.some.injEq] at h
       obtain ⟨c, k, f, hop⟩ := step_out_run cfg fresh s₀ op res (some b) h
       subst hop
-      obtain ⟨cl, sl, h1, h2, h3, _⟩ := run_matches cfg fresh s₀ c k f res b hi h
+      obtain ⟨cl, sl, h1, h2, h3, _⟩ := run_matches_partial cfg fresh s₀ c k f res b hi h
       exact ⟨c, k, f, cl, sl, rfl, by simpa [runOps] using h1, by simpa [runOps] using h2, h3⟩
     | succ i =>
       simp only [runOps, List.getElem?_cons_succ] at h
       obtain ⟨c, k, f, cl, sl, g1, g2, g3, g4⟩ := ih _ (step_inv cfg fresh s₀ op hf hi) i h
       exact ⟨c, k, f, cl, sl, by simpa using g1, by simpa [runOps] using g2, by simpa [runOps] using g3, g4⟩
 
-/-- **failed_set.**  After a statement of client `c` failed because the backend
-    rejected its SET statement (on any connection `k`), and after any further
-    history, a statement of the same client that executes — on the same or on
-    any other connection — again runs with exactly the client's settings of
-    that moment.  (Instance of `no_leak`; stated for the record.) -/
-theorem failed_set (cfg : Cfg) (fresh : Fresh) (hf : FreshOK cfg.tables fresh) (s₀ : Sys) (hi : Inv cfg.tables s₀)
-    (pre post : List Op) (c k k' : Nat) (f f' : Fault) (res : InitRes) (b : Backend)
-    (h : (step cfg fresh (runOps cfg fresh s₀ (pre ++ .run c k f :: post)).1 (.run c k' f')).2 = .run res (some b)) :
-    ∃ cl sl, (runOps cfg fresh s₀ (pre ++ .run c k f :: post)).1.clients[c]? = some cl ∧
-      (runOps cfg fresh s₀ (pre ++ .run c k f :: post)).1.slots[k']? = some sl ∧
-      (AliasFree sl.conn.v803 cl.vars.variables → Matches cfg.tables sl.conn.coll247 sl.conn.v803 b cl) := by
-  obtain ⟨cl, sl, h1, h2, h3, _⟩ := run_matches cfg fresh _ c k' f' res b (runOps_inv cfg fresh _ s₀ hf hi) h
-  exact ⟨cl, sl, h1, h2, h3⟩
+/-- For a client none of whose values reads the session — every client that
+    sets literals only, and e.g. `CONCAT('a','b')` or `@@GLOBAL.x` — `Matches`
+    says that every variable of the backend session is exactly what the client
+    asked for (the statement `no_leak` had before expressions were modelled,
+    now without the caveat about the two spellings of `transaction_read_only`). -/
+theorem matches_session_free (t : Tables) (coll247 v803 : Bool) (b : Backend) (cl : Client)
+    (hm : Matches t coll247 v803 b cl) (hsf : SessionFreeVars v803 cl.vars.variables) :
+    ∀ k, AMap.get b.vars k = expectedVar v803 b.globals cl.vars.variables k := by
+  intro k
+  have hk := hm.2.2 k
+  cases hg : AMap.get (wireVars v803 cl.vars.variables) k with
+  | some txt => rw [hg] at hk; exact hk (hsf k txt hg)
+  | none => rw [hg] at hk; rw [hk, expectedVar_of_none _ _ _ _ hg]
 
 /-- The preparation cannot fail without a reason: on a consistent connection,
     when `SetCharset` accepts the client's charset and the backend does not
     reject the statement, the client's statement executes. -/
-theorem init_succeeds (t : Tables) (vm : VerifyMap) (s : Slot) (cl : Client) (hc : Consistent t s)
+theorem init_succeeds (t : Tables) (s : Slot) (cl : Client) (hc : Consistent t s)
     (hcs : (setCharset t s.conn cl.charset cl.collation).2 ≠ none) :
-    (initializeSessionVariables t vm s cl .none).2.2.isOk = true := by
+    (initializeSessionVariables t s cl .none).2.2.isOk = true := by
   rcases setCharset_cases t s.conn cl.charset cl.collation with h | ⟨h, _, _⟩ | ⟨h, hvalid⟩
   · rw [h] at hcs; exact absurd rfl hcs
   · simp only [initializeSessionVariables, h, setSessionVariables, Bool.false_or]
@@ -834,6 +1108,265 @@ theorem init_succeeds (t : Tables) (vm : VerifyMap) (s : Slot) (cl : Client) (hc
       obtain ⟨stmt, c3, b3, hwr, _⟩ := hw.1 trivial
       rw [hwr]; rfl
 
+/-! ### after a rejected SET statement: back to the acknowledged variables -/
+
+theorem set_acked (vm : VerifyMap) (s s' : SessionVariables) (key : String) (v : Val)
+    (h : s.set vm key v = .ok s') : s'.ackedVariables = s.ackedVariables := by
+  simp only [SessionVariables.set] at h
+  split at h
+  · cases h
+    simp [SessionVariables.ackedVariables, SessionVariables.keepAcknowledged]
+  · cases h
+  · cases h
+
+theorem delete_acked (s : SessionVariables) (key : String) : (s.delete key).ackedVariables = s.ackedVariables := by
+  simp [SessionVariables.delete, SessionVariables.ackedVariables, SessionVariables.keepAcknowledged]
+
+theorem liftSet_acked (vm : VerifyMap) (cl cl' : Client) (key : String) (v : Val)
+    (h : liftSet cl (cl.vars.set vm key v) = .ok cl') : cl'.vars.ackedVariables = cl.vars.ackedVariables := by
+  cases hs : cl.vars.set vm key v with
+  | ok sv =>
+    rw [hs] at h
+    simp only [liftSet, Res.ok.injEq] at h
+    rw [← h]
+    exact set_acked vm _ _ _ _ hs
+  | err k => rw [hs] at h; simp [liftSet] at h
+  | panic => rw [hs] at h; simp [liftSet] at h
+
+theorem setInt_acked (cfg : Cfg) (cl cl' : Client) (name v : String)
+    (h : setIntSessionVariable cfg cl name v = .ok cl') : cl'.vars.ackedVariables = cl.vars.ackedVariables := by
+  unfold setIntSessionVariable at h
+  split at h
+  · cases h; exact delete_acked _ _
+  · split at h
+    · cases h
+    · exact liftSet_acked _ _ _ _ _ h
+
+theorem setString_acked (cfg : Cfg) (cl cl' : Client) (name : String) (v : Val)
+    (h : setStringSessionVariable cfg cl name v = .ok cl') : cl'.vars.ackedVariables = cl.vars.ackedVariables := by
+  unfold setStringSessionVariable at h
+  split at h
+  · split at h
+    · cases h; exact delete_acked _ _
+    · exact liftSet_acked _ _ _ _ _ h
+  · exact liftSet_acked _ _ _ _ _ h
+
+theorem setUser_acked (cfg : Cfg) (cl cl' : Client) (name v : String)
+    (h : setUserSessionVariable cfg cl name v = .ok cl') : cl'.vars.ackedVariables = cl.vars.ackedVariables := by
+  unfold setUserSessionVariable at h
+  split at h
+  · rename_i sv hs
+    cases h
+    exact set_acked _ _ _ _ _ hs
+  · cases h; rfl
+  · cases h
+
+theorem handleSetNames_acked (cfg : Cfg) (cl cl' : Client) (v : Assign)
+    (h : handleSetNames cfg cl v = .ok cl') : cl'.vars.ackedVariables = cl.vars.ackedVariables := by
+  simp only [handleSetNames] at h
+  repeat' split at h
+  all_goals first
+    | (cases h; done)
+    | (cases h; rfl)
+
+theorem handleSetOther_acked (cfg : Cfg) (cl cl' : Client) (name : String) (v : Assign)
+    (h : handleSetOther cfg cl name v = .ok cl') : cl'.vars.ackedVariables = cl.vars.ackedVariables := by
+  simp only [handleSetOther] at h
+  repeat' split at h
+  all_goals first
+    | (cases h; done)
+    | (cases h; rfl)
+    | exact setInt_acked _ _ _ _ _ h
+    | exact setString_acked _ _ _ _ _ h
+    | exact setUser_acked _ _ _ _ _ h
+
+/-- A SET statement of the client changes its variables, never what is on
+    record as acknowledged. -/
+theorem handleSetVariable_acked (cfg : Cfg) (cl cl' : Client) (v : Assign)
+    (h : handleSetVariable cfg cl v = .ok cl') : cl'.vars.ackedVariables = cl.vars.ackedVariables := by
+  simp only [handleSetVariable] at h
+  split at h
+  · cases h
+  · cases hk : setCase (lower v.name) <;> rw [hk] at h <;> simp only at h
+    all_goals repeat' split at h
+    all_goals first
+      | (cases h; done)
+      | (cases h; rfl)
+      | exact setInt_acked _ _ _ _ _ h
+      | exact setString_acked _ _ _ _ _ h
+      | exact liftSet_acked _ _ _ _ _ h
+      | exact handleSetNames_acked _ _ _ _ h
+      | exact handleSetOther_acked _ _ _ _ _ h
+
+theorem handleSet_acked (cfg : Cfg) (cl : Client) (vs : List Assign) :
+    (handleSet cfg cl vs).1.vars.ackedVariables = cl.vars.ackedVariables := by
+  induction vs generalizing cl with
+  | nil => rfl
+  | cons v vs ih =>
+    unfold handleSet
+    cases hv : handleSetVariable cfg cl v with
+    | ok cl' =>
+      simp only
+      rw [ih cl', handleSetVariable_acked cfg cl cl' v hv]
+    | err k => rfl
+    | panic => rfl
+
+@[simp] theorem acknowledge_acked (s : SessionVariables) : s.acknowledge.ackedVariables = s.variables := rfl
+@[simp] theorem acknowledge_variables (s : SessionVariables) : s.acknowledge.variables = s.variables := rfl
+
+theorem restore_variables (s : SessionVariables) : s.restoreAcknowledged.variables = s.ackedVariables := by
+  unfold SessionVariables.restoreAcknowledged SessionVariables.ackedVariables
+  cases s.acked <;> rfl
+
+theorem restore_acked (s : SessionVariables) : s.restoreAcknowledged.ackedVariables = s.ackedVariables := by
+  unfold SessionVariables.restoreAcknowledged SessionVariables.ackedVariables
+  cases h : s.acked <;> simp [h]
+
+/-- **failed_set (one step).**  When the backend rejects the SET statement that
+    prepares a client's statement, the client's variables afterwards are exactly
+    those a backend acknowledged last — the variables of the client's last
+    statement that executed —, its charset and collation are untouched, and what
+    is on record as acknowledged stays. -/
+theorem run_rejected_restores (cfg : Cfg) (fresh : Fresh) (s : Sys) (c k : Nat) (f : Fault) (stmt : Option String)
+    (e : Option Backend) (h : (step cfg fresh s (.run c k f)).2 = .run (.errSet stmt) e) :
+    ∃ cl cl', s.clients[c]? = some cl ∧ (step cfg fresh s (.run c k f)).1.clients[c]? = some cl' ∧
+      cl'.vars.variables = cl.vars.ackedVariables ∧ cl'.vars.ackedVariables = cl.vars.ackedVariables ∧
+      cl'.charset = cl.charset ∧ cl'.collation = cl.collation := by
+  simp only [step] at h ⊢
+  split at h
+  · rename_i cl sl hcl hsl
+    have hcli := init_client cfg.tables sl cl f
+    simp only [Out.run.injEq] at h
+    rw [h.1] at hcli
+    simp only at hcli
+    have hlt : c < s.clients.length := by
+      rcases List.getElem?_eq_some_iff.mp hcl with ⟨hlt, _⟩; exact hlt
+    refine ⟨cl, { cl with vars := cl.vars.restoreAcknowledged }, hcl, ?_, ?_, ?_, ?_, ?_⟩
+    · simp only [hcl, hsl]; rw [hcli]; simp [List.getElem?_set_self hlt]
+    · exact restore_variables _
+    · exact restore_acked _
+    · rfl
+    · rfl
+  · simp at h
+
+/-- What one operation does to the acknowledged variables of a client `c`:
+    they change only when a statement of `c` itself executes (then they become
+    the variables `c` has at that moment). -/
+theorem step_acked (cfg : Cfg) (fresh : Fresh) (s : Sys) (op : Op) (c : Nat) (cl : Client)
+    (hcl : s.clients[c]? = some cl)
+    (hne : ∀ k f r b, op = .run c k f → (step cfg fresh s op).2 ≠ .run r (some b)) :
+    ∃ cl', (step cfg fresh s op).1.clients[c]? = some cl' ∧ cl'.vars.ackedVariables = cl.vars.ackedVariables := by
+  have hlt : c < s.clients.length := by
+    rcases List.getElem?_eq_some_iff.mp hcl with ⟨hlt, _⟩; exact hlt
+  cases op with
+  | set c' assigns =>
+    simp only [step]
+    split
+    · exact ⟨cl, hcl, rfl⟩
+    · rename_i cl0 hcl0
+      by_cases hcc : c' = c
+      · subst hcc
+        rw [hcl] at hcl0
+        cases hcl0
+        exact ⟨(handleSet cfg cl assigns).1, by simp [List.getElem?_set_self hlt], handleSet_acked _ _ _⟩
+      · refine ⟨cl, ?_, rfl⟩
+        simp [List.getElem?_set_ne hcc, hcl]
+  | run c' k f =>
+    by_cases hcc : c' = c
+    · subst hcc
+      have hne' := hne k f
+      simp only [step] at hne' ⊢
+      split
+      · rename_i cl0 sl hcl0 hsl
+        rw [hcl] at hcl0
+        cases hcl0
+        simp only [hcl, hsl] at hne'
+        have hcli := init_client cfg.tables sl cl f
+        refine ⟨(initializeSessionVariables cfg.tables sl cl f).2.1, by simp [List.getElem?_set_self hlt], ?_⟩
+        rw [hcli]
+        cases hr : (initializeSessionVariables cfg.tables sl cl f).2.2 with
+        | ok st =>
+          exfalso
+          exact hne' (.ok st) (initializeSessionVariables cfg.tables sl cl f).1.be trivial (by simp [hr, InitRes.isOk])
+        | errCharset => rfl
+        | errSet st => exact restore_acked _
+      · exact ⟨cl, hcl, rfl⟩
+    · simp only [step]
+      split
+      · refine ⟨cl, ?_, rfl⟩
+        simp [List.getElem?_set_ne hcc, hcl]
+      · exact ⟨cl, hcl, rfl⟩
+  | sync c' k f =>
+    simp only [step]
+    split
+    · exact ⟨cl, hcl, rfl⟩
+    · exact ⟨cl, hcl, rfl⟩
+
+/-- No statement of client `c` executes in the history `ops` from `s`. -/
+def NoExec (cfg : Cfg) (fresh : Fresh) (c : Nat) : Sys → List Op → Prop
+  | _, [] => True
+  | s, op :: ops =>
+    (∀ k f r b, op = .run c k f → (step cfg fresh s op).2 ≠ .run r (some b)) ∧
+    NoExec cfg fresh c (step cfg fresh s op).1 ops
+
+theorem runOps_acked (cfg : Cfg) (fresh : Fresh) (c : Nat) (ops : List Op) (s : Sys) (cl : Client)
+    (hcl : s.clients[c]? = some cl) (hne : NoExec cfg fresh c s ops) :
+    ∃ cl', (runOps cfg fresh s ops).1.clients[c]? = some cl' ∧ cl'.vars.ackedVariables = cl.vars.ackedVariables := by
+  induction ops generalizing s cl with
+  | nil => exact ⟨cl, hcl, rfl⟩
+  | cons op ops ih =>
+    obtain ⟨h1, h2⟩ := hne
+    obtain ⟨cl1, hcl1, ha1⟩ := step_acked cfg fresh s op c cl hcl h1
+    obtain ⟨cl2, hcl2, ha2⟩ := ih _ cl1 hcl1 h2
+    exact ⟨cl2, by simpa [runOps] using hcl2, by rw [ha2, ha1]⟩
+
+/-- **failed_set.**  Take any history.  A statement of client `c` executes (on
+    a backend session `b`, which then carries `c`'s settings: `Matches`); then
+    anything happens — SET statements of `c` and of others, statements and
+    transaction starts of other clients, failed statements of `c` — except
+    that no further statement of `c` executes; then the backend rejects the SET
+    statement that prepares a statement of `c` (on any connection).  After
+    that the variables on record for `c` are exactly those its last executed
+    statement ran with: everything `c` set in between is given up (the
+    rejected value is among it), nothing that was acknowledged is lost or
+    altered; charset and collation are as `c` last set them.  (The code before
+    the repair dropped every user variable and every namespace-allowed
+    variable instead: `Pinned.reset_forgets_witness`.) -/
+theorem failed_set (cfg : Cfg) (fresh : Fresh) (s₁ : Sys) (hi : Inv cfg.tables s₁)
+    (c k k' : Nat) (f f' : Fault) (res : InitRes) (b : Backend) (mid : List Op) (stmt : Option String) (e : Option Backend)
+    (hexec : (step cfg fresh s₁ (.run c k f)).2 = .run res (some b))
+    (hmid : NoExec cfg fresh c (step cfg fresh s₁ (.run c k f)).1 mid)
+    (hrej : (step cfg fresh (runOps cfg fresh (step cfg fresh s₁ (.run c k f)).1 mid).1 (.run c k' f')).2
+              = .run (.errSet stmt) e) :
+    ∃ cl sl cl₃ cl₄, s₁.clients[c]? = some cl ∧ s₁.slots[k]? = some sl ∧
+      Matches cfg.tables sl.conn.coll247 sl.conn.v803 b cl ∧
+      (runOps cfg fresh (step cfg fresh s₁ (.run c k f)).1 mid).1.clients[c]? = some cl₃ ∧
+      (step cfg fresh (runOps cfg fresh (step cfg fresh s₁ (.run c k f)).1 mid).1 (.run c k' f')).1.clients[c]? = some cl₄ ∧
+      cl₄.vars.variables = cl.vars.variables ∧
+      cl₄.charset = cl₃.charset ∧ cl₄.collation = cl₃.collation := by
+  obtain ⟨cl, sl, h1, h2, hm, _, h3⟩ := run_matches_partial cfg fresh s₁ c k f res b hi hexec
+  obtain ⟨cl₃, hcl₃, ha₃⟩ := runOps_acked cfg fresh c mid _ _ h3 hmid
+  obtain ⟨cl₃', cl₄, g1, g2, g3, _, g5, g6⟩ := run_rejected_restores cfg fresh _ c k' f' stmt e hrej
+  rw [hcl₃] at g1
+  cases g1
+  refine ⟨cl, sl, cl₃, cl₄, h1, h2, hm, hcl₃, g2, ?_, g5, g6⟩
+  rw [g3, ha₃]
+  rfl
+
+/-- **failed_set, second half (partial like `no_leak_partial`).**  After a
+    statement of client `c` failed because the backend rejected its SET
+    statement (on any connection `k`), and after any further history, a
+    statement of the same client that executes — on the same or on any other
+    connection — again runs with the client's settings of that moment. -/
+theorem failed_set_runs_partial (cfg : Cfg) (fresh : Fresh) (hf : FreshOK cfg.tables fresh) (s₀ : Sys) (hi : Inv cfg.tables s₀)
+    (pre post : List Op) (c k k' : Nat) (f f' : Fault) (res : InitRes) (b : Backend)
+    (h : (step cfg fresh (runOps cfg fresh s₀ (pre ++ .run c k f :: post)).1 (.run c k' f')).2 = .run res (some b)) :
+    ∃ cl sl, (runOps cfg fresh s₀ (pre ++ .run c k f :: post)).1.clients[c]? = some cl ∧
+      (runOps cfg fresh s₀ (pre ++ .run c k f :: post)).1.slots[k']? = some sl ∧
+      Matches cfg.tables sl.conn.coll247 sl.conn.v803 b cl := by
+  obtain ⟨cl, sl, h1, h2, h3, _⟩ := run_matches_partial cfg fresh _ c k' f' res b (runOps_inv cfg fresh _ s₀ hf hi) h
+  exact ⟨cl, sl, h1, h2, h3⟩
+
 /-! ### the hypotheses are satisfiable: a concrete pool, concrete histories -/
 
 def exTables : Tables :=
@@ -845,11 +1378,12 @@ def exTables : Tables :=
 
 def exCfg : Cfg :=
   { tables := exTables, verifyMap := [("sql_select_limit", .integer), ("sql_mode", .sqlMode)],
-    defaultCharset := "utf8", defaultCollation := 33 }
+    defaultCharset := "utf8", defaultCollation := 33, allowed := [("foo_str", "string")] }
 
 /-- A freshly opened connection: the pool's charset, server defaults. -/
 def exSlot : Slot :=
-  { conn := Conn.new "utf8" 33 true false, be := { charset := "utf8", collation := "utf8_general_ci" } }
+  { conn := Conn.new "utf8" 33 true false,
+    be := { charset := "utf8", collation := "utf8_general_ci", globals := [("sql_mode", "'STRICT_TRANS_TABLES'")] } }
 
 def exFresh : Fresh := fun _ => exSlot
 
@@ -859,7 +1393,7 @@ def exSys : Sys :=
 
 theorem exSlot_consistent : Consistent exTables exSlot :=
   { unused := rfl, ackedCharset := rfl, ackedCollation := rfl, ackedVariables := rfl, charset := rfl,
-    collation := by decide, vars := fun k => by simp [exSlot, Conn.new, expectedVar, wireVars] }
+    collation := by decide, vars := fun k => by simp [exSlot, Conn.new, wireVars, sentVars] }
 
 theorem exFresh_ok : FreshOK exCfg.tables exFresh := fun _ => exSlot_consistent
 
@@ -867,6 +1401,9 @@ theorem exSys_inv : Inv exCfg.tables exSys := by
   intro sl h
   simp only [exSys, List.mem_singleton] at h
   rw [h]; exact exSlot_consistent
+
+def exBackend (cs coll : String) (vars : AMap String) : Backend :=
+  { charset := cs, collation := coll, vars := vars, globals := [("sql_mode", "'STRICT_TRANS_TABLES'")] }
 
 /-- Client 0 sets `sql_select_limit`, runs a statement (the backend gets the
     variable), then client 1 runs on the same connection: the statement sent
@@ -878,30 +1415,72 @@ def exOps : List Op :=
 example : (runOps exCfg exFresh exSys exOps).2 =
     [.set (.ok ()),
      .run (.ok (some "SET NAMES 'utf8' COLLATE 'utf8_general_ci',sql_select_limit = 5"))
-       (some { charset := "utf8", collation := "utf8_general_ci", vars := [("sql_select_limit", "5")] }),
+       (some (exBackend "utf8" "utf8_general_ci" [("sql_select_limit", "5")])),
      .run (.ok (some "SET NAMES 'latin1' COLLATE 'latin1_swedish_ci',sql_select_limit = DEFAULT"))
-       (some { charset := "latin1", collation := "latin1_swedish_ci", vars := [] })] := by decide
+       (some (exBackend "latin1" "latin1_swedish_ci" []))] := by decide
 
-/-- `no_leak` applies to that history (its hypotheses hold, its conclusion is about a real execution). -/
+/-- `no_leak_partial` applies to that history (its hypotheses hold, its conclusion is about a real execution). -/
 example : ∃ c k f cl sl, exOps[2]? = some (.run c k f) ∧
     (runOps exCfg exFresh exSys (exOps.take 2)).1.clients[c]? = some cl ∧
     (runOps exCfg exFresh exSys (exOps.take 2)).1.slots[k]? = some sl ∧
-    (AliasFree sl.conn.v803 cl.vars.variables →
-      Matches exCfg.tables sl.conn.coll247 sl.conn.v803 { charset := "latin1", collation := "latin1_swedish_ci", vars := [] } cl) :=
-  no_leak exCfg exFresh exFresh_ok exOps exSys exSys_inv 2
+    Matches exCfg.tables sl.conn.coll247 sl.conn.v803 (exBackend "latin1" "latin1_swedish_ci" []) cl :=
+  no_leak_partial exCfg exFresh exFresh_ok exOps exSys exSys_inv 2
     (.ok (some "SET NAMES 'latin1' COLLATE 'latin1_swedish_ci',sql_select_limit = DEFAULT")) _ (by decide)
 
 /-- A rejected SET statement: client 0's statement fails, the connection keeps
-    describing its backend (nothing of the rejected settings is recorded), and
-    client 0's next statement on it is prepared again and runs with its settings. -/
+    describing its backend (nothing of the rejected settings is recorded), the
+    client's record goes back to what a backend acknowledged last — nothing —,
+    and its next statement runs with that. -/
 def exOpsRejected : List Op :=
   [.set 0 [{ name := "sql_select_limit", value := .int 5 }], .run 0 0 .rejOther, .run 0 0 .none]
 
 example : (runOps exCfg exFresh exSys exOpsRejected).2 =
     [.set (.ok ()),
      .run (.errSet (some "SET NAMES 'utf8' COLLATE 'utf8_general_ci',sql_select_limit = 5")) none,
-     .run (.ok (some "SET NAMES 'utf8' COLLATE 'utf8_general_ci',sql_select_limit = 5"))
-       (some { charset := "utf8", collation := "utf8_general_ci", vars := [("sql_select_limit", "5")] })] := by decide
+     .run (.ok none) (some (exBackend "utf8" "utf8_general_ci" []))] := by decide
+
+/-- The scenario of the finding that was open (`failed-set-forgets-variables`),
+    on the repaired code.  Client 0 sets a user variable and runs a statement
+    (a backend acknowledges `@x`); it sets a `sql_mode`; the backend rejects
+    the SET statement with error 1231; the client's next statement executes —
+    with `@x`, which the client never unset, and without the `sql_mode` that was
+    refused. -/
+def exOpsRestore : List Op :=
+  [.set 0 [{ name := "x", isSystem := false, value := .str "abc" }],
+   .run 0 0 .none,
+   .set 0 [{ name := "sql_mode", value := .str "ANSI" }],
+   .run 0 0 .rejSqlMode,
+   .run 0 0 .none]
+
+theorem failed_set_example :
+    -- the record before the rejected statement
+    ((runOps exCfg exFresh exSys (exOpsRestore.take 3)).1.clients.map (·.vars.variables)) =
+      [[("@x", .user "'abc'"), ("sql_mode", .str "'ANSI'")], []] ∧
+    -- after it: back to what was acknowledged
+    ((runOps exCfg exFresh exSys (exOpsRestore.take 4)).1.clients.map (·.vars.variables)) =
+      [[("@x", .user "'abc'")], []] ∧
+    -- and the next statement runs with it (no SET statement is needed: the connection still holds it)
+    (runOps exCfg exFresh exSys exOpsRestore).2[4]? =
+      some (.run (.ok none) (some (exBackend "utf8" "utf8_general_ci" [("@x", "'abc'")]))) := by
+  decide
+
+/-- `failed_set` applies to that history: its hypotheses hold of it. -/
+example :
+    let s₁ := (runOps exCfg exFresh exSys (exOpsRestore.take 1)).1
+    let mid : List Op := [.set 0 [{ name := "sql_mode", value := .str "ANSI" }]]
+    let s₂ := (step exCfg exFresh s₁ (.run 0 0 .none)).1
+    ∃ (cl : Client) (sl : Slot) (cl₃ cl₄ : Client), s₁.clients[0]? = some cl ∧ s₁.slots[0]? = some sl ∧
+      Matches exCfg.tables sl.conn.coll247 sl.conn.v803 (exBackend "utf8" "utf8_general_ci" [("@x", "'abc'")]) cl ∧
+      (runOps exCfg exFresh s₂ mid).1.clients[0]? = some cl₃ ∧
+      (step exCfg exFresh (runOps exCfg exFresh s₂ mid).1 (.run 0 0 .rejSqlMode)).1.clients[0]? = some cl₄ ∧
+      cl₄.vars.variables = cl.vars.variables ∧ cl₄.charset = cl₃.charset ∧ cl₄.collation = cl₃.collation :=
+  failed_set exCfg exFresh (runOps exCfg exFresh exSys (exOpsRestore.take 1)).1
+    (runOps_inv exCfg exFresh _ exSys exFresh_ok exSys_inv) 0 0 0 .none .rejSqlMode
+    (.ok (some "SET NAMES 'utf8' COLLATE 'utf8_general_ci',@x = 'abc'"))
+    (exBackend "utf8" "utf8_general_ci" [("@x", "'abc'")])
+    [.set 0 [{ name := "sql_mode", value := .str "ANSI" }]]
+    (some "SET NAMES 'utf8' COLLATE 'utf8_general_ci',@x = 'abc',sql_mode = 'ANSI'") none
+    (by decide) ⟨fun k f r b h => (by cases h), trivial⟩ (by decide)
 
 /-- A MySQL 8.0.30 backend behind a proxy that advertises 5.x: client 0 says
     `tx_read_only`, client 1 `transaction_read_only`; both are one variable on
@@ -916,7 +1495,7 @@ def exSys803 : Sys :=
 
 theorem exSlot803_consistent : Consistent exTables exSlot803 :=
   { unused := rfl, ackedCharset := rfl, ackedCollation := rfl, ackedVariables := rfl, charset := rfl,
-    collation := by decide, vars := fun k => by simp [exSlot803, Conn.new, expectedVar, wireVars] }
+    collation := by decide, vars := fun k => by simp [exSlot803, Conn.new, wireVars, sentVars] }
 
 def exOps803 : List Op :=
   [.set 0 [{ name := "tx_read_only", value := .int 1 }], .run 0 0 .none,
@@ -932,76 +1511,125 @@ example : (runOps exCfg (fun _ => exSlot803) exSys803 exOps803).2 =
      .run (.ok (some "SET NAMES 'utf8' COLLATE 'utf8_general_ci',transaction_read_only = 1"))
        (some { charset := "utf8", collation := "utf8_general_ci", vars := [("transaction_read_only", "1")] })] := by decide
 
-example : AliasFree true [("tx_read_only", Val.int 1)] := by
-  intro _; decide
+/-- One client holding both spellings (a proxy that advertises 5.x keeps them
+    apart) on an 8.0.30 backend: one assignment is sent, with the value recorded
+    as `transaction_read_only`, in whichever order the two were set. -/
+def exOpsBoth (first second : Assign) : List Op := [.set 0 [first], .set 0 [second], .run 0 0 .none]
 
-/-! ### the listed finding: `Reset` after a failed SET statement -/
-
-/-- Client 0 sets a user variable and a `sql_mode` (both acknowledged); the
-    backend rejects the SET statement with error 1231; the client's next
-    statement executes — without the user variable, which the client never
-    unset: `SessionVariables.Reset` removed it from the proxy's record. -/
-def exOpsReset : List Op :=
-  [.set 0 [{ name := "x", isSystem := false, value := .str "abc" }],
-   .set 0 [{ name := "sql_mode", value := .str "ANSI" }],
-   .run 0 0 .rejSqlMode,
-   .run 0 0 .none]
-
-theorem reset_forgets_witness :
-    -- both SET statements were acknowledged and recorded
-    (runOps exCfg exFresh exSys (exOpsReset.take 2)).2 = [.set (.ok ()), .set (.ok ())] ∧
-    ((runOps exCfg exFresh exSys (exOpsReset.take 2)).1.clients.map (·.vars.variables)) =
-      [[("@x", .user "'abc'"), ("sql_mode", .str "'ANSI'")], []] ∧
-    -- the statement after the rejected one executes with neither of them
-    (runOps exCfg exFresh exSys exOpsReset).2[3]? =
-      some (.run (.ok none) (some { charset := "utf8", collation := "utf8_general_ci", vars := [] })) := by
+example :
+    (runOps exCfg (fun _ => exSlot803) exSys803
+        (exOpsBoth { name := "tx_read_only", value := .int 1 } { name := "transaction_read_only", value := .int 0 })).2[2]? =
+      some (.run (.ok (some "SET NAMES 'utf8' COLLATE 'utf8_general_ci',transaction_read_only = 0"))
+        (some { charset := "utf8", collation := "utf8_general_ci", vars := [("transaction_read_only", "0")] })) ∧
+    (runOps exCfg (fun _ => exSlot803) exSys803
+        (exOpsBoth { name := "transaction_read_only", value := .int 0 } { name := "tx_read_only", value := .int 1 })).2[2]? =
+      some (.run (.ok (some "SET NAMES 'utf8' COLLATE 'utf8_general_ci',transaction_read_only = 0"))
+        (some { charset := "utf8", collation := "utf8_general_ci", vars := [("transaction_read_only", "0")] })) := by
   decide
 
-/-- How far the listed finding reaches: `Reset` never adds or changes a
-    variable, and a variable that has a verify function (other than `sql_mode`
-    after error 1231) survives it. -/
-theorem reset_only_forgets (vm : VerifyMap) (s : SessionVariables) (e : Bool) (k : String) (v : Val)
-    (h : AMap.get (s.reset vm e).variables k = some v) : AMap.get s.variables k = some v := by
-  have hf := get_filter_key s.variables (fun x => AMap.has vm x) k
-  simp only [SessionVariables.reset] at h
-  by_cases hc : (e && AMap.has (List.filter (fun p => AMap.has vm p.1) s.variables) "sql_mode" && AMap.has vm "sql_mode") = true
-  · rw [if_pos hc] at h
-    simp only [SessionVariables.delete, get_del] at h
-    by_cases hk : k = formatVariableName "sql_mode"
-    · simp [hk] at h
-    · simp only [hk, ↓reduceIte] at h
-      rw [hf] at h
-      by_cases hv : AMap.has vm k = true <;> simp_all
-  · rw [if_neg hc] at h
-    simp only at h
-    rw [hf] at h
-    by_cases hv : AMap.has vm k = true <;> simp_all
+/-! ### values that are expressions -/
 
-theorem reset_keeps_verified (vm : VerifyMap) (s : SessionVariables) (e : Bool) (k : String)
-    (hk : AMap.has vm k = true) (hne : k ≠ "sql_mode") :
-    AMap.get (s.reset vm e).variables k = AMap.get s.variables k := by
-  have hf := get_filter_key s.variables (fun x => AMap.has vm x) k
-  have hfmt : formatVariableName "sql_mode" = "sql_mode" := by decide
-  simp only [SessionVariables.reset]
-  by_cases hc : (e && AMap.has (List.filter (fun p => AMap.has vm p.1) s.variables) "sql_mode" && AMap.has vm "sql_mode") = true
-  · rw [if_pos hc]
-    simp only [SessionVariables.delete, get_del, hfmt, hne, ↓reduceIte]
-    rw [hf]; simp [hk]
-  · rw [if_neg hc]
-    simp only
-    rw [hf]; simp [hk]
+/-- An expression that does not read the session: the proxy records its text,
+    the backend evaluates it, and the statement runs with its value — for a user
+    variable, for `sql_mode` (with a global variable) and for a string variable
+    the namespace allows. -/
+def exOpsExpr : List Op :=
+  [.set 0 [{ name := "x", isSystem := false, value := .expr (.cat (.str "a") (.str "B")) },
+           { name := "sql_mode", value := .expr (.cat (.gvar "sql_mode") (.str ",ANSI")) },
+           { name := "foo_str", value := .expr (.cat (.str "A") (.int 7)) }],
+   .run 0 0 .none]
 
-/-! ### the three repaired defects: the pinned code, for the record
+theorem constant_expression_example :
+    (runOps exCfg exFresh exSys exOpsExpr).1.clients.map (·.vars.variables) =
+      [[("@x", .user "CONCAT('a', 'B')"), ("sql_mode", .str "CONCAT(@@GLOBAL.sql_mode, ',ANSI')"),
+        ("foo_str", .user "CONCAT('A', 7)")], []] ∧
+    (runOps exCfg exFresh exSys exOpsExpr).2[1]? =
+      some (.run (.ok (some ("SET NAMES 'utf8' COLLATE 'utf8_general_ci',@x = CONCAT('a', 'B')," ++
+          "sql_mode = CONCAT(@@GLOBAL.sql_mode, ',ANSI'),foo_str = CONCAT('A', 7)")))
+        (some (exBackend "utf8" "utf8_general_ci"
+          [("@x", "'aB'"), ("sql_mode", "'STRICT_TRANS_TABLES,ANSI'"), ("foo_str", "'A7'")]))) ∧
+    SessionFreeVars false
+      [("@x", .user "CONCAT('a', 'B')"), ("sql_mode", .str "CONCAT(@@GLOBAL.sql_mode, ',ANSI')"),
+        ("foo_str", .user "CONCAT('A', 7)")] := by
+  refine ⟨by decide, by decide, ?_⟩
+  intro k txt h
+  rw [get_wireVars_false] at h
+  by_cases h1 : k = "foo_str"
+  · subst h1; simp [get_cons] at h; subst h; decide
+  · by_cases h2 : k = "sql_mode"
+    · subst h2; simp [get_cons] at h; subst h; decide
+    · by_cases h3 : k = "@x"
+      · subst h3; simp [get_cons] at h; subst h; decide
+      · have e1 : ¬ "foo_str" = k := fun e => h1 e.symm
+        have e2 : ¬ "sql_mode" = k := fun e => h2 e.symm
+        have e3 : ¬ "@x" = k := fun e => h3 e.symm
+        simp [get_cons, e1, e2, e3] at h
 
-`WriteSetStatement` and `InitializeSessionVariables` as they were before the
-`fix:` commits (no fall-back to the acknowledged settings, resets written under
-the recorded name, resets written even for names the statement assigns).  The
-witnesses show that `no_leak` was false of that code, i.e. that each repair is
-needed; the inputs are kept in corpus/C20/regress.case. -/
+/-- What the proxy does with an expression where it needs a number, a switch, a
+    time zone or a charset name: it refuses the SET statement (nothing is
+    recorded, the client is told). -/
+def exCfgVerify : Cfg :=
+  { exCfg with verifyMap := [("sql_select_limit", .integer), ("time_zone", .timeZone), ("character_set_results", .string)] }
+
+example :
+    (handleSet exCfgVerify { charset := "utf8", collation := 33 }
+      [{ name := "sql_select_limit", value := .expr (.gvar "sql_select_limit") }]).2 = .err "parse-int" ∧
+    (handleSet exCfgVerify { charset := "utf8", collation := 33 }
+      [{ name := "time_zone", value := .expr (.gvar "time_zone") }]).2 = .err "tz-format" ∧
+    (handleSet exCfgVerify { charset := "utf8", collation := 33 }
+      [{ name := "tx_read_only", value := .expr (.add (.int 1) (.int 0)) }]).2 = .err "wrong-value" ∧
+    (handleSet exCfgVerify { charset := "utf8", collation := 33 }
+      [{ name := "character_set_results", value := .expr (.cat (.str "utf") (.int 8)) }]).2 = .err "type" := by
+  decide
+
+/-- **The listed finding `set-expression-reads-session-state`.**  Client 1
+    sets `@p` and runs a statement; client 0, which never set `@p`, sets
+    `@x = @p` — in a session of its own that is `NULL` — and its statement runs
+    on the connection client 1 used: the SET statement assigns `@x` before it
+    resets `@p`, and client 0's statement executes with client 1's value in
+    `@x`.  The second part: `@n = @n+1` after `@n = 1` is 2 in a session of the
+    client's own; on the pooled connection the expression is evaluated again
+    whenever the SET statement is sent again — after another client has used
+    the connection (and `@n` was reset) it yields `NULL`. -/
+def exOpsLeak : List Op :=
+  [.set 1 [{ name := "p", isSystem := false, value := .str "secret" }], .run 1 0 .none,
+   .set 0 [{ name := "x", isSystem := false, value := .expr (.uvar "p") }], .run 0 0 .none]
+
+def exOpsDrift : List Op :=
+  [.set 0 [{ name := "n", isSystem := false, value := .int 1 }], .run 0 0 .none,
+   .set 0 [{ name := "n", isSystem := false, value := .expr (.add (.uvar "n") (.int 1)) }], .run 0 0 .none,
+   .run 1 0 .none, .run 0 0 .none]
+
+theorem session_expression_leak_witness :
+    (runOps exCfg exFresh exSys exOpsLeak).2[3]? =
+      some (.run (.ok (some "SET NAMES 'utf8' COLLATE 'utf8_general_ci',@x = @p,@p = NULL"))
+        (some (exBackend "utf8" "utf8_general_ci" [("@x", "'secret'")]))) ∧
+    -- in a session of client 0 alone `@p` is not set: `@x = @p` leaves `@x` unset
+    assigned [] "@x" "@p" = none ∧
+    (runOps exCfg exFresh exSys exOpsDrift).2[3]? =
+      some (.run (.ok (some "SET NAMES 'utf8' COLLATE 'utf8_general_ci',@n = @n+1"))
+        (some (exBackend "utf8" "utf8_general_ci" [("@n", "2")]))) ∧
+    (runOps exCfg exFresh exSys exOpsDrift).2[5]? =
+      some (.run (.ok (some "SET NAMES 'utf8' COLLATE 'utf8_general_ci',@n = @n+1"))
+        (some (exBackend "utf8" "utf8_general_ci" []))) := by
+  decide
+
+/-! ### the repaired defects: the code as it was, for the record
+
+`WriteSetStatement`, `InitializeSessionVariables`, `SessionVariables.Reset` and
+the string case of `handleSetVariable` as they were before the `fix:` commits
+(no fall-back to the acknowledged settings, resets written under the recorded
+name, resets written even for names the statement assigns, both spellings of
+`transaction_read_only` written in map order, `Reset` instead of
+`RestoreAcknowledged`, an expression recorded as lower-cased text).  The
+witnesses show that the property was false of that code, i.e. that each repair
+is needed; the inputs are kept in corpus/C20/regress.case. -/
 
 namespace Pinned
 
-/-- `which`: 0 = pinned tree, 1 = after b5c4ceb, 2 = after 5432cf0 (3 = current = `writeSetStatement`). -/
+/-- `which`: 0 = pinned tree, 1 = after b5c4ceb, 2 = after 5432cf0, 3 = after
+    fa4df86 (the current `writeSetStatement` also sends one assignment only for
+    the two spellings of `transaction_read_only`). -/
 def writeSetStatement (which : Nat) (t : Tables) (c : Conn) (b : Backend) (f : Fault) : Conn × Backend × WriteRes :=
   match t.collationName c.collation with
   | none => (if which ≥ 1 then restoreAckedSession c else c, b, .invalidCollation)
@@ -1009,9 +1637,11 @@ def writeSetStatement (which : Nat) (t : Tables) (c : Conn) (b : Backend) (f : F
     let unused := c.sv.unused
     let c' := { c with sv := { c.sv with unused := [] } }
     let resetKey := fun (k : String) => if which ≥ 2 then wireKey c.v803 k else k
+    let assignedKeys := (wireMap c.v803 c.sv.variables).map (·.1)
+    let resets := if which ≥ 3 then unused.filter (fun p => !(assignedKeys.contains (resetKey p.1))) else unused
     let items := Item.names c.charset collName
-      :: ((wireVars c.v803 c.sv.variables).map (fun p => Item.assign p.1 p.2)
-          ++ unused.map (fun p => Item.assign (resetKey p.1) (defaultText (resetKey p.1))))
+      :: ((wireMap c.v803 c.sv.variables).map (fun p => Item.assign p.1 p.2)
+          ++ resets.map (fun p => Item.assign (resetKey p.1) (defaultText (resetKey p.1))))
     match f with
     | .none =>
       ({ c' with ackedCharset := c'.charset, ackedCollation := c'.collation, ackedVariables := c'.sv },
@@ -1042,7 +1672,7 @@ theorem stale_belief_witness :
     let s1 := (initializeSessionVariables 0 exTables exSlot limit5 .rejOther).1
     (initializeSessionVariables 0 exTables s1 limit5 .none).2 = .ok none ∧
     (initializeSessionVariables 0 exTables s1 limit5 .none).1.be.vars = [] ∧
-    expectedVar false limit5.vars.variables "sql_select_limit" = some "5" := by decide
+    expectedVar false [] limit5.vars.variables "sql_select_limit" = some "5" := by decide
 
 /-- After the first repair only: on an 8.0.30 backend client A's
     `tx_read_only = 1` (sent as `transaction_read_only`) is "reset" as
@@ -1060,18 +1690,105 @@ theorem alias_wipe_witness :
     let s1 := (initializeSessionVariables 2 exTables exSlot803 txA .none).1
     (initializeSessionVariables 2 exTables s1 trxB .none).2 = .ok (some "") ∧
     (initializeSessionVariables 2 exTables s1 trxB .none).1.be.vars = [] ∧
-    expectedVar true trxB.vars.variables "transaction_read_only" = some "0" := by decide
+    expectedVar true [] trxB.vars.variables "transaction_read_only" = some "0" := by decide
+
+/-- After the first three repairs only: a client that holds both spellings (the
+    lists stand for the two orders in which the Go map can be walked) ends up
+    with `transaction_read_only = 0` or `= 1` on an 8.0.30 backend depending on
+    that order; the current code sends the value recorded under the backend's
+    own name in both. -/
+def bothAB : Client :=
+  { charset := "utf8", collation := 33, vars := { variables := [("tx_read_only", .int 1), ("transaction_read_only", .int 0)] } }
+def bothBA : Client :=
+  { charset := "utf8", collation := 33, vars := { variables := [("transaction_read_only", .int 0), ("tx_read_only", .int 1)] } }
+
+theorem alias_order_witness :
+    (∀ k, AMap.get bothAB.vars.variables k = AMap.get bothBA.vars.variables k) ∧
+    (initializeSessionVariables 3 exTables exSlot803 bothAB .none).1.be.vars = [("transaction_read_only", "0")] ∧
+    (initializeSessionVariables 3 exTables exSlot803 bothBA .none).1.be.vars = [("transaction_read_only", "1")] ∧
+    (SessVars.initializeSessionVariables exTables exSlot803 bothAB .none).1.be.vars = [("transaction_read_only", "0")] ∧
+    (SessVars.initializeSessionVariables exTables exSlot803 bothBA .none).1.be.vars = [("transaction_read_only", "0")] := by
+  refine ⟨?_, by decide, by decide, by decide, by decide⟩
+  intro k
+  simp only [bothAB, bothBA, get_cons, get_nil]
+  by_cases h1 : "tx_read_only" = k <;> by_cases h2 : "transaction_read_only" = k <;> simp [h1, h2]
+  subst h1
+  exact absurd h2 (by decide)
 
 /-- The current code on the same three inputs. -/
 example :
-    ((SessVars.initializeSessionVariables exTables exCfg.verifyMap
-        (SessVars.initializeSessionVariables exTables exCfg.verifyMap exSlot limit5 .rejOther).1 limit5 .none).1.be.vars
+    ((SessVars.initializeSessionVariables exTables
+        (SessVars.initializeSessionVariables exTables exSlot limit5 .rejOther).1 limit5 .none).1.be.vars
       = [("sql_select_limit", "5")]) ∧
-    ((SessVars.initializeSessionVariables exTables exCfg.verifyMap
-        (SessVars.initializeSessionVariables exTables exCfg.verifyMap exSlot803 txA .none).1 plain .none).1.be.vars = []) ∧
-    ((SessVars.initializeSessionVariables exTables exCfg.verifyMap
-        (SessVars.initializeSessionVariables exTables exCfg.verifyMap exSlot803 txA .none).1 trxB .none).1.be.vars
+    ((SessVars.initializeSessionVariables exTables
+        (SessVars.initializeSessionVariables exTables exSlot803 txA .none).1 plain .none).1.be.vars = []) ∧
+    ((SessVars.initializeSessionVariables exTables
+        (SessVars.initializeSessionVariables exTables exSlot803 txA .none).1 trxB .none).1.be.vars
       = [("transaction_read_only", "0")]) := by decide
+
+/-- `Reset(err)` as it was: forget every variable without a verify function,
+    and `sql_mode` when the error is "wrong value for variable 'sql_mode'". -/
+def reset (vm : VerifyMap) (s : SessionVariables) (sqlModeErr : Bool) : SessionVariables :=
+  let s1 := { s with variables := s.variables.filter (fun p => AMap.has vm p.1) }
+  if sqlModeErr && AMap.has s1.variables "sql_mode" && AMap.has vm "sql_mode" then
+    { s1 with variables := AMap.del s1.variables (formatVariableName "sql_mode") }
+  else s1
+
+/-- The finding that was listed as `failed-set-forgets-variables`: the record
+    of the client of `failed_set_example` just before the rejected statement —
+    `@x` had been acknowledged by a backend, `sql_mode` had not —; `Reset`
+    after error 1231 forgot both, `RestoreAcknowledged` gives up `sql_mode` only. -/
+theorem reset_forgets_witness :
+    let sv := (runOps exCfg exFresh exSys (exOpsRestore.take 3)).1.clients.map (·.vars)
+    sv.map (·.variables) = [[("@x", .user "'abc'"), ("sql_mode", .str "'ANSI'")], []] ∧
+    sv.map (fun s => (reset exCfg.verifyMap s true).variables) = [[], []] ∧
+    sv.map (fun s => s.restoreAcknowledged.variables) = [[("@x", .user "'abc'")], []] := by
+  decide
+
+/-- How far that defect reached: `Reset` never added or changed a variable, and
+    a variable that has a verify function (other than `sql_mode` after error
+    1231) survived it. -/
+theorem reset_only_forgets (vm : VerifyMap) (s : SessionVariables) (e : Bool) (k : String) (v : Val)
+    (h : AMap.get (reset vm s e).variables k = some v) : AMap.get s.variables k = some v := by
+  have hf := get_filter_key s.variables (fun x => AMap.has vm x) k
+  simp only [reset] at h
+  by_cases hc : (e && AMap.has (List.filter (fun p => AMap.has vm p.1) s.variables) "sql_mode" && AMap.has vm "sql_mode") = true
+  · rw [if_pos hc] at h
+    simp only [get_del] at h
+    by_cases hk : k = formatVariableName "sql_mode"
+    · simp [hk] at h
+    · simp only [hk, ↓reduceIte] at h
+      rw [hf] at h
+      by_cases hv : AMap.has vm k = true <;> simp_all
+  · rw [if_neg hc] at h
+    simp only at h
+    rw [hf] at h
+    by_cases hv : AMap.has vm k = true <;> simp_all
+
+theorem reset_keeps_verified (vm : VerifyMap) (s : SessionVariables) (e : Bool) (k : String)
+    (hk : AMap.has vm k = true) (hne : k ≠ "sql_mode") :
+    AMap.get (reset vm s e).variables k = AMap.get s.variables k := by
+  have hf := get_filter_key s.variables (fun x => AMap.has vm x) k
+  have hfmt : formatVariableName "sql_mode" = "sql_mode" := by decide
+  simp only [reset]
+  by_cases hc : (e && AMap.has (List.filter (fun p => AMap.has vm p.1) s.variables) "sql_mode" && AMap.has vm "sql_mode") = true
+  · rw [if_pos hc]
+    simp only [get_del, hfmt, hne, ↓reduceIte]
+    rw [hf]; simp [hk]
+  · rw [if_neg hc]
+    simp only
+    rw [hf]; simp [hk]
+
+/-- Before the repair of the string variables: `SET foo_str = CONCAT('A', 7)`
+    was recorded as the string `concat(a, 7)` (`getVariableExprResult`); the
+    backend was sent `foo_str = 'concat(a, 7)'` and stored that text, not the
+    value `'A7'` the current code makes it compute (`constant_expression_example`). -/
+theorem string_expression_text_witness :
+    varResult (.expr (.cat (.str "A") (.int 7))) = "concat(a, 7)" ∧
+    (SessVars.initializeSessionVariables exTables exSlot
+      { charset := "utf8", collation := 33, vars := { variables := [("foo_str", .str "concat(a, 7)")] } } .none).1.be.vars
+      = [("foo_str", "'concat(a, 7)'")] ∧
+    assigned [] "foo_str" "CONCAT('A', 7)" = some "'A7'" := by decide
 
 end Pinned
 
